@@ -2,6 +2,7 @@ import Octo.Gen.SsUdpGen
 import Octo.Proofs.AddrGen
 import Octo.Proofs.AddrOrd
 import Octo.Model.SsUdp
+import Octo.Proofs.SsUdpRound
 /-!
   The generated code (`Octo.SsUdpGen`, written by `translate_ssudp.py` from `octo-squirrel/src/codec/shadowsocks/udp.rs`
   and the files it names) against the hand-written model `Octo.SsUdp` (`Octo/Model/SsUdp.lean`).
@@ -35,7 +36,7 @@ def toMode : Mode → Ss.Mode
 def toUser (u : ServerUser) : Ss.User := ⟨String.ofList (u.name.bytes.map fun b => Char.ofNat b.toNat), u.key, u.identity_hash⟩
 
 /-- the types behind the externals: the list of registered users, a keyed AEAD (algorithm, key), the model's authenticator -/
-@[reducible] def MT : ExtTypes := ⟨List ServerUser, Alg × Bytes, Ss.Auth⟩
+@[reducible] def MT : ExtTypes := ⟨List ServerUser, Alg × Bytes, Ss.Auth, Ss.Auth⟩
 
 def toSession (s : Session) : SsUdp.Session :=
   ⟨s.client_session_id.toNat, s.server_session_id.toNat, s.packet_id.toNat, s.user.map toUser⟩
@@ -46,6 +47,13 @@ structure MEnv where
   C : Crypto
   now : Nat
   trace : Bool
+  /-- randomness of the encoder: padding length drawn for an empty payload, the padding bytes, the bytes `fill_bytes` writes
+  (salt / XChaCha nonce) -/
+  padLen : Nat := 0
+  padding : Bytes := []
+  rnd : Bytes := []
+  /-- what the spare capacity holds where `advance_mut` exposes it -/
+  junk : UInt64 → Bytes := fun _ => []
 
 /-- the assumed externals, instantiated by the functions of the hand model -/
 def XM (E : MEnv) : Ext MT where
@@ -82,6 +90,22 @@ def XM (E : MEnv) : Ext MT where
     | (some p, a') => .ok (a', [], .ok p)
     | (none, a') => .ok (a', [], .err)
   aead_2022_now := .ok (.ok (UInt64.ofNat E.now))
+  aead_2022_next_padding_length msg := .ok (if msg.isEmpty then UInt16.ofNat E.padLen else 0)
+  dice_roll_bytes n := .ok (E.padding.take n.toNat)
+  dice_fill_bytes buf := .ok ((E.rnd ++ List.replicate buf.length 0).take buf.length, ())
+  udp_with_eih kind key iks sidPid dst := match toKind kind with
+    | some k => if k.supportEih then .ok (dst ++ SsUdp.withEih E.C key sidPid iks, .ok ()) else .ok (dst, .err)
+    | none => .ok (dst, .err)
+  udp_aes_encrypt_in_place kind key buf := match toKind kind with
+    | some k => if k.supportEih then .ok (E.C.aesEnc key buf, .ok ()) else .ok (buf, .err)
+    | none => .ok (buf, .err)
+  CipherMethod_encrypt_in_place_detached c nonce aad buf :=
+    if buf.length < 16 then .panic else .ok (E.C.sealB c.1 c.2 nonce aad (buf.take (buf.length - 16)), .ok ())
+  aead_new_encoder kind key salt := match toKind kind with
+    | some k => .ok (.ok (Ss.newAuth E.C k key salt))
+    | none => .panic
+  ChunkEncoder_encode_packet a src dst := .ok ((Ss.Auth.sealB E.C a src).2, dst ++ (Ss.Auth.sealB E.C a src).1, .ok ())
+  spare_bytes n := E.junk n
 
 /-- how a result of the generated decoders is read: the final `*src` is not part of the datagram's outcome -/
 def embed : PWGen.Res (Cursor × RResult (Cursor × Address × Session)) → Octo.Res (Bytes × Addr × SsUdp.Session)
@@ -464,6 +488,1106 @@ theorem decode_client_aes_eq (ov : Bool) (E : MEnv) (N : Usize) (codec : AEADCip
     cases l with
     | nil => exact decode_client_aes_psk_eq ov E N codec c b k hk hx h22 (by simp [hm]) hb hnow hopen haes
     | cons u us => exact decode_client_aes_eih_eq ov E N codec c b k u us hk hx h22 hm (by simpa [hm] using hul) hb hnow hopen haes
+
+theorem len_toNat (b : List UInt8) (h : b.length < 2 ^ 64) : (Cursor.len b).toNat = b.length := by
+  simp [Cursor.len, UInt64.toNat_ofNat']; omega
+
+theorem from_be_take8 (t : List UInt8) : (U64.from_be_bytes (t.take 8)).toNat = rdBE (t.take 8) := u64_of_be8 t
+
+/-- the plaintext ‖ tag buffer that an in-place detached open leaves: what the code reads from it -/
+theorem x_text (ρ : Type) (ov : Bool) (p tag : List UInt8) (ht : tag.length = 16) (hp : 16 ≤ p.length) (hl : p.length + 16 < 2 ^ 64) :
+    (List.take 8 (p ++ tag) = List.take 8 p) ∧ (List.take 8 (List.drop 8 (p ++ tag)) = List.take 8 (List.drop 8 p)) ∧
+    U64.subOk (Cursor.len (p ++ tag)) 16 = true ∧
+    (Flow.slice (p ++ tag) 16 (Cursor.len (p ++ tag) - 16) : Flow _ ρ) = Flow.next (List.drop 16 p) := by
+  have hlen : (Cursor.len (p ++ tag)).toNat = p.length + 16 := by rw [len_toNat _ (by simp [ht]; omega)]; simp [ht]
+  have h16 : (16 : UInt64) ≤ Cursor.len (p ++ tag) := by rw [UInt64.le_iff_toNat_le, hlen]; show 16 ≤ _; omega
+  have hsub : (Cursor.len (p ++ tag) - 16).toNat = p.length := by
+    rw [UInt64.toNat_sub_of_le _ _ h16, hlen]; show p.length + 16 - 16 = _; omega
+  refine ⟨?_, ?_, ?_, ?_⟩
+  · rw [List.take_append_of_le_length (by omega)]
+  · rw [List.drop_append_of_le_length (by omega), List.take_append_of_le_length (by simp; omega)]
+  · simp only [U64.subOk, hlen, decide_eq_true_eq]; show 16 ≤ _; omega
+  · rw [slice_eval _ _ _ (by rw [hsub]; exact hp) (by rw [hsub]; simp)]
+    rw [hsub, List.take_append_of_le_length (Nat.le_refl _), List.take_length]; rfl
+
+/-- **`decode_client_packet_aead_2022`, XChaCha kinds** (24-byte nonce on the wire, session id and packet id inside the
+sealed part) = the model's `decode` in server mode -/
+theorem decode_client_x_eq (ov : Bool) (E : MEnv) (N : Usize) (codec : AEADCipherCodec) (c : Context MT) (b : List UInt8) (k : Ss.Kind)
+    (xa : Alg)
+    (hk : toKind codec.kind = some k) (hx : SsUdp.xAlg k = some xa)
+    (hb : b.length < 2 ^ 64) (hnow : E.now < 2 ^ 64)
+    (hopen : ∀ a key n ad ct p, E.C.openB a key n ad ct = some p → ct.length = p.length + 16) :
+    embed (AEADCipherCodec.decode_client_packet_aead_2022 ov (XM E) N codec c b) =
+      SsUdp.decode E.C (toCtx k c) .server E.now b := by
+  have h22 : k.is2022 = true := by cases k <;> simp_all [SsUdp.xAlg, Ss.Kind.is2022]
+  have he : k.supportEih = false := by cases k <;> simp_all [SsUdp.xAlg, Ss.Kind.supportEih]
+  have hnl : SsUdp.nonceLen k = 24 := by simp [SsUdp.nonceLen, hx]
+  unfold AEADCipherCodec.decode_client_packet_aead_2022 SsUdp.decode
+  simp only [nonce_length_eval E _ k hk h22, tag_size_eval E _ k hk, support_eih_eval ov _ k hk, he, hnl, h22, call_ok, bind_next,
+    toCtx, hx]
+  have hkk : codec.kind = .Aead2022Blake3ChaCha8Poly1305 ∨ codec.kind = .Aead2022Blake3ChaCha20Poly1305 := by
+    cases hkd : codec.kind <;> simp [hkd, toKind] at hk <;> subst hk <;> simp_all [SsUdp.xAlg, Ss.Kind.is2022]
+  rcases hkk with hkd | hkd
+  all_goals
+    simp only [hkd, call_ok, bind_next, gt_iff_lt,
+      Bool.not_true, Bool.not_false, Bool.false_eq_true, if_false, if_true, U64.addOk, UInt64.reduceAdd, UInt64.reduceOfNat,
+      UInt64.reduceToNat, Nat.reduceAdd, Nat.reduceLT, Nat.reducePow, decide_true, arith_true, remaining_lt b hb, Nat.lt_irrefl,
+      decide_false, false_and, and_false, Bool.false_and, not_true_eq_false, not_false_eq_true, true_and, and_self]
+    by_cases g1 : b.length < 67
+    · simp only [g1, decide_true, if_true, bind_ret, Flow.run, embed]
+    simp only [g1, decide_false, Bool.false_eq_true, if_false, bind_next]
+    rw [split_at_eval b 24 (by show 24 ≤ b.length; omega)]
+    simp only [bind_next]
+    rw [slice_eval _ 0 8 (by decide) (by simp only [List.length_drop]; show 8 ≤ b.length - 24; omega)]
+    simp only [bind_next]
+    rw [copy_from_slice_eval _ _ (by simp only [List.length_replicate, List.length_drop, List.length_take]; show 8 = min 8 (b.length - 24); omega)]
+    simp only [bind_next, ← hkd, get_cipher_x_eval E _ k hk h22 xa hx, call_ok]
+    rw [dipd_eval _ _ _ _ _ (by simp only [List.length_drop]; show 16 ≤ b.length - 24; omega)]
+    simp only [UInt64.reduceToNat]
+    cases ho : E.C.openB xa (List.take 32 c.key) (List.take 24 b) [] (List.drop 24 b) with
+    | none => simp only [call_ok, bind_next, q_err, bind_ret, Flow.run, embed, Option.map_none]
+    | some p =>
+      have hp : p.length + 16 = b.length - 24 := by have := hopen _ _ _ _ _ _ ho; simp only [List.length_drop] at this; omega
+      have hx4 := x_text (Cursor × RResult (Cursor × Address × Session)) ov p (List.drop ((List.drop 24 b).length - 16) (List.drop 24 b))
+        (by simp only [List.length_drop]; omega) (by omega) (by omega)
+      simp only [call_ok, bind_next, q_ok, Option.map_some, IoCursor.new]
+      rw [io_get_u64_eval _ 0 (by simp only [List.length_append, UInt64.reduceToNat]; omega)]
+      simp only [bind_next]
+      rw [io_get_u64_eval _ _ (by simp only [List.length_append, UInt64.reduceAdd, UInt64.reduceToNat]; omega)]
+      simp only [bind_next, UInt64.reduceToNat, UInt64.reduceAdd, List.drop_zero, hx4.1, hx4.2.1, hx4.2.2.1, arith_true, hx4.2.2.2]
+      rw [tail_server ov E N _ (List.drop 16 p) _ _ none hnow (by simp only [List.length_drop]; omega) (by simp only [List.length_drop]; omega)]
+      simp only [reduceCtorEq, if_false, u64_of_be8, Option.map_none]
+      rfl
+
+/-- **`decode_client_packet_aead_2022`, every 2022 kind, any user table** = the model's `decode` in server mode -/
+theorem decode_client_eq (ov : Bool) (E : MEnv) (N : Usize) (codec : AEADCipherCodec) (c : Context MT) (b : List UInt8) (k : Ss.Kind)
+    (hk : toKind codec.kind = some k) (h22 : k.is2022 = true)
+    (hul : (c.user_manager.getD []).length < 2 ^ 64)
+    (hb : b.length < 2 ^ 64) (hnow : E.now < 2 ^ 64)
+    (hopen : ∀ a key n ad ct p, E.C.openB a key n ad ct = some p → ct.length = p.length + 16)
+    (haes : ∀ key x, (E.C.aesDec key x).length = 16) :
+    embed (AEADCipherCodec.decode_client_packet_aead_2022 ov (XM E) N codec c b) =
+      SsUdp.decode E.C (toCtx k c) .server E.now b := by
+  cases hx : SsUdp.xAlg k with
+  | none => exact decode_client_aes_eq ov E N codec c b k hk hx h22 hul hb hnow hopen haes
+  | some xa => exact decode_client_x_eq ov E N codec c b k xa hk hx hb hnow hopen
+
+/-! ## Part 2b — `decode_server_packet_aead_2022` (client side) and its nested `decrypt_message` -/
+
+theorem x_text0 (ρ : Type) (p tag : List UInt8) (ht : tag.length = 16) (hl : p.length + 16 < 2 ^ 64) :
+    (Flow.slice (p ++ tag) 0 (Cursor.len (p ++ tag) - 16) : Flow _ ρ) = Flow.next p := by
+  have hlen : (Cursor.len (p ++ tag)).toNat = p.length + 16 := by rw [len_toNat _ (by simp [ht]; omega)]; simp [ht]
+  have h16 : (16 : UInt64) ≤ Cursor.len (p ++ tag) := by rw [UInt64.le_iff_toNat_le, hlen]; show 16 ≤ _; omega
+  have hsub : (Cursor.len (p ++ tag) - 16).toNat = p.length := by
+    rw [UInt64.toNat_sub_of_le _ _ h16, hlen]; show p.length + 16 - 16 = _; omega
+  rw [slice_eval _ _ _ (by rw [hsub]; exact Nat.zero_le _) (by rw [hsub]; simp)]
+  rw [hsub, List.take_append_of_le_length (Nat.le_refl _), List.take_length]; rfl
+
+/-- what `decrypt_message` hands to its caller, read off the AEAD result -/
+def dmResult (sid pid : UInt64) : Option Bytes → RResult (UInt64 × UInt64 × List UInt8)
+  | some p => .ok (sid, pid, p)
+  | none => .err
+
+theorem decrypt_message_aes (ov : Bool) (E : MEnv) (N : Usize) (kind : CipherKind) (c : Context MT) (b : List UInt8) (k : Ss.Kind)
+    (hk : toKind kind = some k) (hx : SsUdp.xAlg k = none) (h22 : k.is2022 = true)
+    (hb : b.length < 2 ^ 64) (hlen : 51 ≤ b.length)
+    (hopen : ∀ a key n ad ct p, E.C.openB a key n ad ct = some p → ct.length = p.length + 16)
+    (haes : ∀ key x, (E.C.aesDec key x).length = 16) :
+    ∃ s', AEADCipherCodec.decode_server_packet_aead_2022.decrypt_message ov (XM E) N kind b c = .ok (s',
+      dmResult (UInt64.ofNat (beNat (List.take 8 (E.C.aesDec c.key (List.take 16 b)))))
+        (UInt64.ofNat (beNat (List.take 8 (List.drop 8 (E.C.aesDec c.key (List.take 16 b))))))
+        (E.C.openB k.alg (SsUdp.aesSessionKey E.C k c.key (rdBE (List.take 8 (E.C.aesDec c.key (List.take 16 b)))))
+          (List.drop 4 (E.C.aesDec c.key (List.take 16 b))) [] (List.drop 16 b))) := by
+  have he : k.supportEih = true := by cases k <;> simp_all [SsUdp.xAlg, Ss.Kind.is2022, Ss.Kind.supportEih]
+  unfold AEADCipherCodec.decode_server_packet_aead_2022.decrypt_message
+  have hkk : kind = .Aead2022Blake3Aes128Gcm ∨ kind = .Aead2022Blake3Aes256Gcm := by
+    cases hkd : kind <;> simp [hkd, toKind] at hk <;> subst hk <;> simp_all [SsUdp.xAlg, Ss.Kind.is2022]
+  simp only [tag_size_eval E _ k hk, call_ok, bind_next]
+  rcases hkk with hkd | hkd
+  all_goals
+    simp only [hkd]
+    rw [split_at_eval b 16 (by show 16 ≤ b.length; omega)]
+    simp only [bind_next, ← hkd, aes_dec_eval E _ k hk he, call_ok, q_ok, IoCursor.new]
+    rw [io_get_u64_eval _ 0 (by rw [haes]; decide)]
+    simp only [bind_next]
+    rw [io_get_u64_eval _ _ (by rw [haes]; decide)]
+    simp only [bind_next]
+    rw [slice_eval _ 4 16 (by decide) (by rw [haes]; decide)]
+    simp only [bind_next, get_cipher_aes_eval E _ k hk h22 hx, call_ok]
+    rw [dipd_eval _ _ _ _ _ (by simp only [List.length_drop]; show 16 ≤ b.length - 16; omega)]
+    simp only [UInt64.reduceToNat, UInt64.reduceAdd, List.drop_zero, u64_of_be8, List.take_of_length_le (Nat.le_of_eq (haes _ _))]
+    cases ho : E.C.openB k.alg (SsUdp.aesSessionKey E.C k c.key (rdBE (List.take 8 (E.C.aesDec c.key (List.take 16 b)))))
+        (List.drop 4 (E.C.aesDec c.key (List.take 16 b))) [] (List.drop 16 b) with
+    | none =>
+      refine ⟨E.C.aesDec c.key (List.take 16 b) ++ List.drop 16 b, ?_⟩
+      simp only [call_ok, bind_next, q_err, bind_ret, Flow.run, dmResult]
+    | some p =>
+      have hp : p.length + 16 = b.length - 16 := by have := hopen _ _ _ _ _ _ ho; simp only [List.length_drop] at this; omega
+      have hx4 := x_text (Cursor × RResult (UInt64 × UInt64 × List UInt8)) ov p (List.drop ((List.drop 16 b).length - 16) (List.drop 16 b))
+        (by simp only [List.length_drop]; omega) (by omega) (by omega)
+      refine ⟨E.C.aesDec c.key (List.take 16 b) ++ (p ++ List.drop ((List.drop 16 b).length - 16) (List.drop 16 b)), ?_⟩
+      simp only [call_ok, bind_next, q_ok, hx4.2.2.1, arith_true]
+      rw [x_text0 _ p _ (by simp only [List.length_drop]; omega) (by omega)]
+      simp only [bind_next, Flow.run, dmResult]
+
+theorem decrypt_message_x (ov : Bool) (E : MEnv) (N : Usize) (kind : CipherKind) (c : Context MT) (b : List UInt8) (k : Ss.Kind) (xa : Alg)
+    (hk : toKind kind = some k) (hx : SsUdp.xAlg k = some xa)
+    (hb : b.length < 2 ^ 64) (hlen : 75 ≤ b.length)
+    (hopen : ∀ a key n ad ct p, E.C.openB a key n ad ct = some p → ct.length = p.length + 16) :
+    ∃ s', AEADCipherCodec.decode_server_packet_aead_2022.decrypt_message ov (XM E) N kind b c = .ok (s',
+      match E.C.openB xa (List.take 32 c.key) (List.take 24 b) [] (List.drop 24 b) with
+      | some p => .ok (UInt64.ofNat (beNat (List.take 8 p)), UInt64.ofNat (beNat (List.take 8 (List.drop 8 p))), List.drop 16 p)
+      | none => .err) := by
+  have h22 : k.is2022 = true := by cases k <;> simp_all [SsUdp.xAlg, Ss.Kind.is2022]
+  have hnl : SsUdp.nonceLen k = 24 := by simp [SsUdp.nonceLen, hx]
+  unfold AEADCipherCodec.decode_server_packet_aead_2022.decrypt_message
+  have hkk : kind = .Aead2022Blake3ChaCha8Poly1305 ∨ kind = .Aead2022Blake3ChaCha20Poly1305 := by
+    cases hkd : kind <;> simp [hkd, toKind] at hk <;> subst hk <;> simp_all [SsUdp.xAlg, Ss.Kind.is2022]
+  simp only [tag_size_eval E _ k hk, call_ok, bind_next]
+  rcases hkk with hkd | hkd
+  all_goals
+    simp only [hkd]
+    simp only [← hkd, nonce_length_eval E _ k hk h22, hnl, call_ok, bind_next, UInt64.reduceOfNat]
+    rw [split_at_eval b 24 (by show 24 ≤ b.length; omega)]
+    simp only [bind_next]
+    rw [slice_eval _ 0 8 (by decide) (by simp only [List.length_drop]; show 8 ≤ b.length - 24; omega)]
+    simp only [bind_next]
+    rw [copy_from_slice_eval _ _ (by simp only [List.length_replicate, List.length_drop, List.length_take]; show 8 = min 8 (b.length - 24); omega)]
+    simp only [bind_next, get_cipher_x_eval E _ k hk h22 xa hx, call_ok]
+    rw [dipd_eval _ _ _ _ _ (by simp only [List.length_drop]; show 16 ≤ b.length - 24; omega)]
+    simp only [UInt64.reduceToNat]
+    cases ho : E.C.openB xa (List.take 32 c.key) (List.take 24 b) [] (List.drop 24 b) with
+    | none =>
+      refine ⟨List.take 24 b ++ List.drop 24 b, ?_⟩
+      simp only [call_ok, bind_next, q_err, bind_ret, Flow.run]
+    | some p =>
+      have hp : p.length + 16 = b.length - 24 := by have := hopen _ _ _ _ _ _ ho; simp only [List.length_drop] at this; omega
+      have hx4 := x_text (Cursor × RResult (UInt64 × UInt64 × List UInt8)) ov p (List.drop ((List.drop 24 b).length - 16) (List.drop 24 b))
+        (by simp only [List.length_drop]; omega) (by omega) (by omega)
+      refine ⟨List.take 24 b ++ (p ++ List.drop ((List.drop 24 b).length - 16) (List.drop 24 b)), ?_⟩
+      simp only [call_ok, bind_next, q_ok, IoCursor.new]
+      rw [io_get_u64_eval _ 0 (by simp only [List.length_append, UInt64.reduceToNat]; omega)]
+      simp only [bind_next]
+      rw [io_get_u64_eval _ _ (by simp only [List.length_append, UInt64.reduceAdd, UInt64.reduceToNat]; omega)]
+      simp only [bind_next, UInt64.reduceToNat, UInt64.reduceAdd, List.drop_zero, hx4.1, hx4.2.1, hx4.2.2.1, arith_true, hx4.2.2.2, Flow.run]
+
+/-- the part of the client-side decoder after the body was opened: server type byte, timestamp window, echoed client
+session id, padding, address = the model's `bodyParse .client` -/
+theorem tail_client (ov : Bool) (E : MEnv) (N : Usize) (src p : List UInt8) (ssid pid : UInt64) (st : Mode) (hst : st = .Client)
+    (hnow : E.now < 2 ^ 64) (hp : 19 ≤ p.length) (hp2 : p.length < 2 ^ 64) :
+    embed (Flow.run (
+      (Flow.get_u8 (Cursor.extend_from_slice [] p)).bind fun x =>
+            (Flow.call (Mode.expect_u8 ov st)).bind fun v132 =>
+              (if (x.snd != v132) = true then Flow.ret (src, RResult.err) else Flow.next ()).bind fun x_1 =>
+                (Flow.get_u64 x.fst).bind fun x =>
+                  (Flow.call (validate_timestamp ov (XM E) x.snd)).bind fun v134 =>
+                    (Flow.question v134 (src, RResult.err)).bind fun v135 =>
+                      (Flow.get_u64 x.fst).bind fun x =>
+                        (Flow.get_u16 x.fst).bind fun x_2 =>
+                          (if decide (Cursor.remaining x_2.fst < U16.as_usize x_2.snd) = true then
+                                Flow.ret (src, RResult.err)
+                              else Flow.next ()).bind
+                            fun x_3 =>
+                            (if decide (0 < x_2.snd) = true then
+                                  (Flow.advance x_2.fst (U16.as_usize x_2.snd)).bind fun packet => Flow.next packet
+                                else Flow.next x_2.fst).bind
+                              fun packet =>
+                              (Flow.call (Session.new ov (XM E) N x.snd ssid pid none)).bind fun v138 =>
+                                (Flow.call (decode ov packet)).bind fun x =>
+                                  (Flow.question x.snd (src, RResult.err)).bind fun v140 =>
+                                    Flow.ret (src, RResult.ok (x.fst, v140, v138)))) =
+      SsUdp.bodyParse .client E.now ssid.toNat pid.toNat p none := by
+  subst hst
+  unfold SsUdp.bodyParse
+  simp only [Cursor.extend_from_slice, List.nil_append]
+  rw [get_u8_eval p (by omega)]
+  simp only [bind_next, expect_u8_eval, call_ok, toMode, Ss.Mode.expectU8, if_true]
+  by_cases g2' : ¬ p.headD 0 = 1
+  · simp only [g2', bne_iff_ne, ne_eq, not_false_eq_true, if_true, bind_ret, Flow.run, embed]
+  have g2 : p.headD 0 = 1 := Classical.not_not.mp g2'
+  simp only [g2, bne_self_eq_false, Bool.false_eq_true, if_false, bind_next, ne_eq, not_true_eq_false]
+  rw [get_u64_eval _ (by simp only [List.length_drop]; omega)]
+  simp only [bind_next, validate_timestamp_eval ov E _ hnow, call_ok, u64_of_be8]
+  by_cases g3 : Consts.ssMaxTimeDiff < Ss.absDiff E.now (rdBE (List.take 8 (List.drop 1 p)))
+  · simp only [gt_iff_lt, g3, if_true, q_err, bind_ret, Flow.run, embed]
+  simp only [gt_iff_lt, g3, if_false, q_ok, bind_next]
+  rw [get_u64_eval _ (by simp only [List.length_drop]; omega)]
+  simp only [bind_next, List.drop_drop, Nat.reduceAdd]
+  rw [get_u16_eval _ (by simp only [List.length_drop]; omega)]
+  simp only [bind_next, List.drop_drop, Nat.reduceAdd]
+  rw [remaining_lt _ (by simp only [List.length_drop]; omega), u16_len]
+  by_cases g4 : (List.drop 17 p).length < 2 + rdBE (List.take 2 (List.drop 17 p))
+  · have : (List.drop 19 p).length < rdBE (List.take 2 (List.drop 17 p)) := by simp only [List.length_drop] at g4 ⊢; omega
+    simp only [this, g4, decide_true, if_true, bind_ret, Flow.run, embed]
+  have g4' : ¬ (List.drop 19 p).length < rdBE (List.take 2 (List.drop 17 p)) := by simp only [List.length_drop] at g4 ⊢; omega
+  simp only [g4, g4', decide_false, Bool.false_eq_true, if_false, bind_next]
+  have hadv : (if decide (0 < UInt16.ofNat (beNat (List.take 2 (List.drop 17 p)))) = true then
+        (Flow.advance (List.drop 19 p) (U16.as_usize (UInt16.ofNat (beNat (List.take 2 (List.drop 17 p)))))).bind fun packet => Flow.next packet
+      else (Flow.next (List.drop 19 p) : Flow (List UInt8) (Cursor × RResult (Cursor × Address × Session)))) =
+      Flow.next (List.drop (2 + rdBE (List.take 2 (List.drop 17 p))) (List.drop 17 p)) := by
+    have e : List.drop (2 + rdBE (List.take 2 (List.drop 17 p))) (List.drop 17 p) =
+        List.drop (rdBE (List.take 2 (List.drop 17 p))) (List.drop 19 p) := by
+      rw [List.drop_drop, List.drop_drop]; congr 1; omega
+    rw [e]
+    split
+    · rw [advance_eval _ _ (by rw [u16_len]; omega), u16_len]; rfl
+    · rename_i h0
+      have : rdBE (List.take 2 (List.drop 17 p)) = 0 := by
+        rw [← u16_len]
+        have : UInt16.ofNat (beNat (List.take 2 (List.drop 17 p))) = 0 := by
+          simp only [decide_eq_true_eq] at h0
+          exact UInt16.le_antisymm (UInt16.not_lt.mp h0) (by simp [UInt16.le_iff_toNat_le])
+        rw [this]; rfl
+      rw [this]; rfl
+  rw [hadv]
+  simp only [bind_next, Session.new, Flow.run, call_ok, List.drop_drop]
+  have hl : (List.drop (17 + (2 + rdBE (List.take 2 (List.drop 17 p)))) p).length < 2 ^ 64 := by
+    simp only [List.length_drop]; omega
+  rw [← decode_eq ov _ hl]
+  cases hd : decode ov (List.drop (17 + (2 + rdBE (List.take 2 (List.drop 17 p)))) p) with
+  | panic => simp only [call_panic, bind_panic, embed, embedDecode]
+  | ok v =>
+    obtain ⟨r, res⟩ := v
+    cases res with
+    | err => simp only [call_ok, bind_next, bind_ret, q_err, embed, embedDecode]
+    | ok a => simp only [call_ok, bind_next, q_ok, embed, embedDecode, toSession, u64_of_be8]; rfl
+
+theorem decode_server_aes_eq (ov : Bool) (E : MEnv) (N : Usize) (codec : AEADCipherCodec) (c : Context MT) (b : List UInt8) (k : Ss.Kind)
+    (hk : toKind codec.kind = some k) (hx : SsUdp.xAlg k = none) (h22 : k.is2022 = true)
+    (hm : c.stream_type = .Client)
+    (hb : b.length < 2 ^ 64) (hnow : E.now < 2 ^ 64)
+    (hopen : ∀ a key n ad ct p, E.C.openB a key n ad ct = some p → ct.length = p.length + 16)
+    (haes : ∀ key x, (E.C.aesDec key x).length = 16) :
+    embed (AEADCipherCodec.decode_server_packet_aead_2022 ov (XM E) N codec c b) =
+      SsUdp.decode E.C (toCtx k c) .client E.now b := by
+  have hnl : SsUdp.nonceLen k = 0 := by simp [SsUdp.nonceLen, hx]
+  rw [SsUdp.decode_2022 _ _ h22]
+  unfold AEADCipherCodec.decode_server_packet_aead_2022 SsUdp.headerLen SsUdp.opened
+  simp only [nonce_length_eval E _ k hk h22, tag_size_eval E _ k hk, hnl, call_ok, bind_next, toCtx, hx, reduceCtorEq, if_false,
+    UInt64.reduceOfNat, U64.addOk, UInt64.reduceAdd, UInt64.reduceToNat, Nat.reduceAdd, Nat.reduceLT, Nat.reducePow, decide_true,
+    arith_true, remaining_lt b hb, SsUdp.requireEih, false_and]
+  by_cases g1 : b.length < 51
+  · simp only [g1, decide_true, if_true, bind_ret, Flow.run, embed]
+  simp only [g1, decide_false, Bool.false_eq_true, if_false, bind_next]
+  obtain ⟨s', hs⟩ := decrypt_message_aes ov E N codec.kind c b k hk hx h22 hb (by omega) hopen haes
+  rw [hs]
+  simp only [call_ok, bind_next, gt_iff_lt]
+  cases ho : E.C.openB k.alg (SsUdp.aesSessionKey E.C k c.key (rdBE (List.take 8 (E.C.aesDec c.key (List.take 16 b)))))
+      (List.drop 4 (E.C.aesDec c.key (List.take 16 b))) [] (List.drop 16 b) with
+  | none => simp only [dmResult, q_err, bind_ret, Flow.run, embed, Option.map_none]
+  | some p =>
+    have hp : p.length + 16 = b.length - 16 := by have := hopen _ _ _ _ _ _ ho; simp only [List.length_drop] at this; omega
+    simp only [dmResult, q_ok, bind_next, Option.map_some]
+    rw [tail_client ov E N s' p _ _ _ hm hnow (by omega) (by omega)]
+    have e8 : List.take 8 (List.drop 8 (E.C.aesDec c.key (List.take 16 b))) = List.drop 8 (E.C.aesDec c.key (List.take 16 b)) :=
+      List.take_of_length_le (by simp [haes])
+    have e9 : (UInt64.ofNat (beNat (List.drop 8 (E.C.aesDec c.key (List.take 16 b))))).toNat =
+        rdBE (List.drop 8 (E.C.aesDec c.key (List.take 16 b))) := by rw [← e8]; exact u64_of_be8 _
+    simp only [u64_of_be8, e8, e9]
+
+theorem decode_server_x_eq (ov : Bool) (E : MEnv) (N : Usize) (codec : AEADCipherCodec) (c : Context MT) (b : List UInt8) (k : Ss.Kind)
+    (xa : Alg) (hk : toKind codec.kind = some k) (hx : SsUdp.xAlg k = some xa)
+    (hm : c.stream_type = .Client)
+    (hb : b.length < 2 ^ 64) (hnow : E.now < 2 ^ 64)
+    (hopen : ∀ a key n ad ct p, E.C.openB a key n ad ct = some p → ct.length = p.length + 16) :
+    embed (AEADCipherCodec.decode_server_packet_aead_2022 ov (XM E) N codec c b) =
+      SsUdp.decode E.C (toCtx k c) .client E.now b := by
+  have h22 : k.is2022 = true := by cases k <;> simp_all [SsUdp.xAlg, Ss.Kind.is2022]
+  have hnl : SsUdp.nonceLen k = 24 := by simp [SsUdp.nonceLen, hx]
+  rw [SsUdp.decode_2022 _ _ h22]
+  unfold AEADCipherCodec.decode_server_packet_aead_2022 SsUdp.headerLen SsUdp.opened
+  simp only [nonce_length_eval E _ k hk h22, tag_size_eval E _ k hk, hnl, call_ok, bind_next, toCtx, hx, reduceCtorEq, if_false,
+    UInt64.reduceOfNat, U64.addOk, UInt64.reduceAdd, UInt64.reduceToNat, Nat.reduceAdd, Nat.reduceLT, Nat.reducePow, decide_true,
+    arith_true, remaining_lt b hb]
+  by_cases g1 : b.length < 75
+  · simp only [g1, decide_true, if_true, bind_ret, Flow.run, embed]
+  simp only [g1, decide_false, Bool.false_eq_true, if_false, bind_next]
+  obtain ⟨s', hs⟩ := decrypt_message_x ov E N codec.kind c b k xa hk hx hb (by omega) hopen
+  rw [hs]
+  simp only [call_ok, bind_next, gt_iff_lt]
+  cases ho : E.C.openB xa (List.take 32 c.key) (List.take 24 b) [] (List.drop 24 b) with
+  | none => simp only [q_err, bind_ret, Flow.run, embed, Option.map_none]
+  | some p =>
+    have hp : p.length + 16 = b.length - 24 := by have := hopen _ _ _ _ _ _ ho; simp only [List.length_drop] at this; omega
+    simp only [q_ok, bind_next, Option.map_some]
+    rw [tail_client ov E N s' (List.drop 16 p) _ _ _ hm hnow (by simp only [List.length_drop]; omega) (by simp only [List.length_drop]; omega)]
+    simp only [u64_of_be8]
+
+/-- **`decode_server_packet_aead_2022` (client side), every 2022 kind** = the model's `decode` in client mode: the type byte
+must be the server type, the echoed client session id / server session id / packet id are the model's, timestamp window,
+padding, address; never a panic -/
+theorem decode_server_eq (ov : Bool) (E : MEnv) (N : Usize) (codec : AEADCipherCodec) (c : Context MT) (b : List UInt8) (k : Ss.Kind)
+    (hk : toKind codec.kind = some k) (h22 : k.is2022 = true) (hm : c.stream_type = .Client)
+    (hb : b.length < 2 ^ 64) (hnow : E.now < 2 ^ 64)
+    (hopen : ∀ a key n ad ct p, E.C.openB a key n ad ct = some p → ct.length = p.length + 16)
+    (haes : ∀ key x, (E.C.aesDec key x).length = 16) :
+    embed (AEADCipherCodec.decode_server_packet_aead_2022 ov (XM E) N codec c b) =
+      SsUdp.decode E.C (toCtx k c) .client E.now b := by
+  cases hx : SsUdp.xAlg k with
+  | none => exact decode_server_aes_eq ov E N codec c b k hk hx h22 hm hb hnow hopen haes
+  | some xa => exact decode_server_x_eq ov E N codec c b k xa hk hx hm hb hnow hopen
+
+/-! ## Part 2c — `AEADCipherCodec::decode` (dispatch, legacy branch) and `SessionCodec::decode` -/
+
+/-- the legacy branch of `AEADCipherCodec::decode`: salt ‖ seal(address ‖ payload) -/
+theorem decode_legacy_eq (ov : Bool) (E : MEnv) (N : Usize) (codec : AEADCipherCodec) (c : Context MT) (b : List UInt8) (k : Ss.Kind)
+    (hk : toKind codec.kind = some k) (h22 : k.is2022 = false) (hkey : c.key.length = k.n)
+    (hb : b.length < 2 ^ 64)
+    (hopen : ∀ a key n ad ct p, E.C.openB a key n ad ct = some p → ct.length = p.length + 16) :
+    embed (AEADCipherCodec.decode ov (XM E) N codec c b) = SsUdp.decode E.C (toCtx k c) (toMode c.stream_type) E.now b := by
+  unfold AEADCipherCodec.decode SsUdp.decode
+  simp only [is_aead_2022_eval ov _ k hk, h22, call_ok, bind_next, toCtx, Bool.false_eq_true, not_false_eq_true, if_true]
+  have hkn : k.n < 2 ^ 64 := by cases k <;> simp [Ss.Kind.n]
+  have hkl : (Cursor.len c.key).toNat = k.n := by rw [len_toNat _ (by omega), hkey]
+  rw [remaining_lt b hb, hkl]
+  by_cases g1 : b.length < k.n
+  · simp only [g1, decide_true, if_true, bind_ret, Flow.run, embed]
+  simp only [g1, decide_false, Bool.false_eq_true, if_false, bind_next]
+  rw [split_to_eval b _ (by rw [hkl]; omega), hkl]
+  simp only [bind_next, AEADCipherCodec.new_decoder, Flow.run, call_ok]
+  have hnd : (XM E).aead_new_decoder codec.kind c.key (List.take k.n b) = PWGen.Res.ok (RResult.ok (Ss.newAuth E.C k c.key (List.take k.n b))) := by
+    simp [XM, hk]
+  have hdp : ∀ a src, (XM E).ChunkDecoder_decode_packet a src = match Ss.Auth.openB E.C a src with
+      | (some p, a') => PWGen.Res.ok (a', [], RResult.ok p)
+      | (none, a') => PWGen.Res.ok (a', [], RResult.err) := fun _ _ => rfl
+  simp only [hnd, call_ok, bind_next, q_ok, hdp, Ss.Auth.openB]
+  cases ho : E.C.openB (Ss.newAuth E.C k c.key (List.take k.n b)).alg (Ss.newAuth E.C k c.key (List.take k.n b)).key
+      (Nonce.incStep (Ss.newAuth E.C k c.key (List.take k.n b)).nonce) [] (List.drop k.n b) with
+  | none => simp only [call_ok, bind_next, q_err, bind_ret, embed]
+  | some p =>
+    have hp : p.length < 2 ^ 64 := by have := hopen _ _ _ _ _ _ ho; simp only [List.length_drop] at this; omega
+    simp only [call_ok, bind_next, q_ok]
+    rw [← decode_eq ov _ hp]
+    cases hd : decode ov p with
+    | panic => simp only [call_panic, bind_panic, embed, embedDecode]
+    | ok v =>
+      obtain ⟨r, res⟩ := v
+      cases res with
+      | err => simp only [call_ok, bind_next, bind_ret, q_err, embed, embedDecode]
+      | ok a => simp only [call_ok, bind_next, q_ok, embed, embedDecode, toSession]; rfl
+
+theorem run_call_id {α : Type} (r : PWGen.Res (Cursor × α)) :
+    Flow.run ((Flow.call r : Flow (Cursor × α) (Cursor × α)).bind fun x => Flow.ret (x.1, x.2)) = r := by
+  cases r with
+  | panic => rfl
+  | ok v => rfl
+
+/-- **`AEADCipherCodec::decode`** (the dispatch on cipher family and on who is decoding, incl. the legacy salt ‖ seal branch)
+= the model's `decode` in the mode of the context -/
+theorem decode_eq_model (ov : Bool) (E : MEnv) (N : Usize) (codec : AEADCipherCodec) (c : Context MT) (b : List UInt8) (k : Ss.Kind)
+    (hk : toKind codec.kind = some k) (hkey : k.is2022 = false → c.key.length = k.n)
+    (hul : (c.user_manager.getD []).length < 2 ^ 64)
+    (hb : b.length < 2 ^ 64) (hnow : E.now < 2 ^ 64)
+    (hopen : ∀ a key n ad ct p, E.C.openB a key n ad ct = some p → ct.length = p.length + 16)
+    (haes : ∀ key x, (E.C.aesDec key x).length = 16) :
+    embed (AEADCipherCodec.decode ov (XM E) N codec c b) = SsUdp.decode E.C (toCtx k c) (toMode c.stream_type) E.now b := by
+  cases h22 : k.is2022 with
+  | false => exact decode_legacy_eq ov E N codec c b k hk h22 (hkey h22) hb hopen
+  | true =>
+    unfold AEADCipherCodec.decode
+    simp only [is_aead_2022_eval ov _ k hk, h22, call_ok, bind_next]
+    cases hm : c.stream_type with
+    | Client =>
+      simp only [toMode]
+      rw [run_call_id, decode_server_eq ov E N codec c b k hk h22 hm hb hnow hopen haes]
+    | Server =>
+      simp only [toMode]
+      rw [run_call_id, decode_client_eq ov E N codec c b k hk h22 hul hb hnow hopen haes]
+
+/-- how a result of `SessionCodec::decode` is read -/
+def embedS : PWGen.Res (Cursor × RResult (Option (Cursor × Address × Session))) → Octo.Res (Option (Bytes × Addr × SsUdp.Session))
+  | .ok (_, .ok (some (p, a, s))) => .ok (some (p, toAddr a, toSession s))
+  | .ok (_, .ok none) => .ok none
+  | .ok (_, .err) => .err
+  | .panic => .panic
+
+/-- **`SessionCodec::decode`**: an empty datagram is `Ok(None)`, anything else is decoded whole = the model's `sessionDecode` -/
+theorem session_decode_eq (ov : Bool) (E : MEnv) (N : Usize) (sc : SessionCodec MT) (b : List UInt8) (k : Ss.Kind)
+    (hk : toKind sc.cipher.kind = some k) (hkey : k.is2022 = false → sc.context.key.length = k.n)
+    (hul : (sc.context.user_manager.getD []).length < 2 ^ 64)
+    (hb : b.length < 2 ^ 64) (hnow : E.now < 2 ^ 64)
+    (hopen : ∀ a key n ad ct p, E.C.openB a key n ad ct = some p → ct.length = p.length + 16)
+    (haes : ∀ key x, (E.C.aesDec key x).length = 16) :
+    embedS (SessionCodec.decode ov (XM E) N sc b) =
+      SsUdp.sessionDecode E.C (toCtx k sc.context) (toMode sc.context.stream_type) E.now b := by
+  unfold SessionCodec.decode SsUdp.sessionDecode
+  cases b with
+  | nil => rfl
+  | cons x r =>
+    have hl : (Cursor.len (x :: r)).toNat = (x :: r).length := len_toNat _ hb
+    simp only [Cursor.is_empty, List.isEmpty_cons, Bool.false_eq_true, if_false]
+    rw [split_to_eval _ _ (by rw [hl]; exact Nat.le_refl _), hl, List.take_length, List.drop_length]
+    simp only [bind_next]
+    rw [← decode_eq_model ov E N sc.cipher sc.context (x :: r) k hk hkey hul hb hnow hopen haes]
+    cases hd : AEADCipherCodec.decode ov (XM E) N sc.cipher sc.context (x :: r) with
+    | panic => simp only [call_panic, bind_panic, Flow.run, embedS, embed]
+    | ok v =>
+      obtain ⟨s', res⟩ := v
+      cases res with
+      | err => simp only [call_ok, bind_next, bind_ret, q_err, Flow.run, embedS, embed]
+      | ok t =>
+        obtain ⟨p, a, s⟩ := t
+        simp only [call_ok, bind_next, q_ok, Flow.run, embedS, embed]
+
+/-! ## Part 4 — the ENCODE side: `encode_client_packet_aead_2022`, `encode_server_packet_aead_2022` -/
+
+theorem u8_ofNat_mod (a : Nat) : UInt8.ofNat (a % 256) = u8 a := rfl
+
+theorem beBytes_eight (x : Nat) : beBytes 8 x = be64 x := by
+  simp only [beBytes, be64, be32, List.nil_append, List.cons_append, u8_ofNat_mod, Nat.div_div_eq_div_mul]
+
+theorem beBytes_two' (x : Nat) : beBytes 2 x = be16 x := by
+  simp only [beBytes, be16, List.nil_append, List.cons_append, u8_ofNat_mod]
+
+/-- a chain of `usize` additions whose true sum fits does not overflow -/
+theorem arith_add {ρ : Type} (ov : Bool) (a b : UInt64) (h : a.toNat + b.toNat < 2 ^ 64) :
+    (Flow.arith ov (U64.addOk a b) : Flow Unit ρ) = Flow.next () := by
+  have : U64.addOk a b = true := by simp [U64.addOk, h]
+  rw [this, arith_true]
+
+theorem add_toNat (a b : UInt64) (h : a.toNat + b.toNat < 2 ^ 64) : (a + b).toNat = a.toNat + b.toNat := by
+  rw [UInt64.toNat_add]; exact Nat.mod_eq_of_lt h
+
+/-- the padding length the encoder uses -/
+def padLenOf (E : MEnv) (item : List UInt8) : UInt16 := if item.isEmpty then UInt16.ofNat E.padLen else 0
+def padOf (E : MEnv) (item : List UInt8) : Bytes := if item.isEmpty then E.padding else []
+
+theorem padLen_toNat (E : MEnv) (item : List UInt8) (hpad : E.padding.length = E.padLen) (hpl : E.padLen < 65536) :
+    (U16.as_usize (padLenOf E item)).toNat = (padOf E item).length := by
+  unfold padLenOf padOf U16.as_usize
+  cases item.isEmpty
+  · rfl
+  · simp only [if_true, hpad]
+    rw [UInt16.toNat_ofNat_of_lt' (by simpa using hpl), UInt64.toNat_ofNat_of_lt' (by simp [UInt64.size]; omega)]
+
+theorem padLen_toNat16 (E : MEnv) (item : List UInt8) (hpad : E.padding.length = E.padLen) (hpl : E.padLen < 65536) :
+    (padLenOf E item).toNat = (padOf E item).length := by
+  unfold padLenOf padOf
+  cases item.isEmpty
+  · rfl
+  · simp only [if_true, hpad]
+    rw [UInt16.toNat_ofNat_of_lt' (by simpa using hpl)]
+
+theorem be64_length (n : Nat) : (be64 n).length = 8 := rfl
+
+theorem junk_len (n : Usize) (j : List UInt8) : ((j ++ List.replicate n.toNat 0).take n.toNat).length = n.toNat := by
+  simp [List.length_take]
+
+theorem aes_enc_eval (E : MEnv) (kind : CipherKind) (k : Ss.Kind) (hk : toKind kind = some k) (he : k.supportEih = true) (key buf : Bytes) :
+    (XM E).udp_aes_encrypt_in_place kind key buf = PWGen.Res.ok (E.C.aesEnc key buf, RResult.ok ()) := by simp [XM, hk, he]
+
+theorem eipd_eval (E : MEnv) (c : Alg × Bytes) (nonce aad buf : Bytes) (h : 16 ≤ buf.length) :
+    (XM E).CipherMethod_encrypt_in_place_detached c nonce aad buf =
+      PWGen.Res.ok (E.C.sealB c.1 c.2 nonce aad (buf.take (buf.length - 16)), RResult.ok ()) := by
+  have : ¬ buf.length < 16 := by omega
+  simp [XM, this]
+
+/-- the randomness the model's encoder is given, read off the environment of the externals -/
+def randOf (E : MEnv) (item : List UInt8) : SsUdp.Rand := { salt := E.rnd, nonce := E.rnd.take 24, padding := padOf E item, now := E.now }
+
+theorem enc_client_aes (ov : Bool) (E : MEnv) (N : Usize) (codec : AEADCipherCodec) (c : Context MT) (s : Session) (addr : Address)
+    (item : List UInt8) (k : Ss.Kind)
+    (hk : toKind codec.kind = some k) (hx : SsUdp.xAlg k = none) (h22 : k.is2022 = true)
+    (hik : c.identity_keys = [])
+    (hitem : Socks5Addr.length (toAddr addr) + item.length + 70000 < 2 ^ 64) (hnow : E.now < 2 ^ 64)
+    (hpad : E.padding.length = E.padLen) (hpl : E.padLen < 65536) :
+    AEADCipherCodec.encode_client_packet_aead_2022 ov (XM E) N codec c s addr item [] =
+      .ok (SsUdp.encode E.C (toCtx k c) .client (toSession s) (toAddr addr) item (randOf E item), .ok ()) := by
+  have he : k.supportEih = true := by cases k <;> simp_all [SsUdp.xAlg, Ss.Kind.is2022, Ss.Kind.supportEih]
+  have hnl : SsUdp.nonceLen k = 0 := by simp [SsUdp.nonceLen, hx]
+  unfold AEADCipherCodec.encode_client_packet_aead_2022
+  have hnp : (XM E).aead_2022_next_padding_length item = .ok (padLenOf E item) := rfl
+  have hP := padLen_toNat E item hpad hpl
+  have hPl : (padOf E item).length ≤ 65535 := by
+    unfold padOf; split
+    · rw [hpad]; omega
+    · simp
+  have hR : (Cursor.remaining item).toNat = item.length := remaining_toNat item (by omega)
+  have hL : (UInt64.ofNat (Socks5Addr.length (toAddr addr))).toNat = Socks5Addr.length (toAddr addr) :=
+    UInt64.toNat_ofNat_of_lt' (by simp [UInt64.size]; omega)
+  simp only [hnp, nonce_length_eval E _ k hk h22, tag_size_eval E _ k hk, support_eih_eval ov _ k hk, he, hnl, call_ok, bind_next, hik,
+    List.isEmpty_nil, Bool.not_true, Bool.and_false, Bool.false_eq_true, if_false, UInt64.reduceOfNat, UInt64.reduceAdd,
+    length_eq ov addr (by omega)]
+  generalize hPd : U16.as_usize (padLenOf E item) = P at *
+  generalize hLd : UInt64.ofNat (Socks5Addr.length (toAddr addr)) = L at *
+  generalize hRd : Cursor.remaining item = R at *
+  have s1 : ((27 : UInt64) + P).toNat = 27 + P.toNat := add_toNat _ _ (by show 27 + _ < _; omega)
+  have s2 : ((27 : UInt64) + P + L).toNat = 27 + P.toNat + L.toNat := by rw [add_toNat _ _ (by rw [s1]; omega), s1]
+  have s3 : ((27 : UInt64) + P + L + R).toNat = 27 + P.toNat + L.toNat + R.toNat := by rw [add_toNat _ _ (by rw [s2]; omega), s2]
+  rw [arith_add ov 0 8 (by decide), bind_next, arith_add ov 8 8 (by decide), bind_next, arith_add ov 16 0 (by decide), bind_next,
+    arith_add ov 16 1 (by decide), bind_next, arith_add ov 17 8 (by decide), bind_next, arith_add ov 25 2 (by decide), bind_next,
+    arith_add ov 27 P (by show 27 + _ < _; omega), bind_next, arith_add ov _ L (by rw [s1]; omega), bind_next,
+    arith_add ov _ R (by rw [s2]; omega), bind_next, arith_add ov _ 16 (by rw [s3]; show _ + 16 < _; omega), bind_next]
+  have hroll : (XM E).dice_roll_bytes P = PWGen.Res.ok (padOf E item) := by
+    show PWGen.Res.ok (E.padding.take P.toNat) = _
+    rw [hP]; unfold padOf; split
+    · rw [List.take_length]
+    · simp
+  have hnowx : (XM E).aead_2022_now = PWGen.Res.ok (RResult.ok (UInt64.ofNat E.now)) := rfl
+  have hkk : codec.kind = .Aead2022Blake3Aes128Gcm ∨ codec.kind = .Aead2022Blake3Aes256Gcm := by
+    cases hkd : codec.kind <;> simp [hkd, toKind] at hk <;> subst hk <;> simp_all [SsUdp.xAlg, Ss.Kind.is2022]
+  simp only [gt_iff_lt, UInt64.lt_irrefl, decide_false, Bool.false_eq_true, if_false, bind_next, to_u8_eval, call_ok, hnowx, q_ok, hroll,
+    encode_eq, toMode, Ss.Mode.toU8, if_true]
+  have hP16 := padLen_toNat16 E item hpad hpl
+  have hnow' : (UInt64.ofNat E.now).toNat = E.now := UInt64.toNat_ofNat_of_lt' (by simpa [UInt64.size] using hnow)
+  have hmodel : SsUdp.encode E.C (toCtx k c) .client (toSession s) (toAddr addr) item (randOf E item) =
+      E.C.aesEnc c.key (be64 s.client_session_id.toNat ++ be64 s.packet_id.toNat) ++
+        E.C.sealB k.alg (SsUdp.aesSessionKey E.C k c.key s.client_session_id.toNat)
+          ((be64 s.client_session_id.toNat ++ be64 s.packet_id.toNat).drop 4) []
+          ([0] ++ be64 E.now ++ be16 (padOf E item).length ++ padOf E item ++ Socks5Addr.encode (toAddr addr) ++ item) := by
+    simp only [SsUdp.encode, toCtx, h22, not_true_eq_false, if_false, hx, hik, toSession, randOf, Ss.Mode.toU8, ne_eq, and_false,
+      List.append_nil, not_false_eq_true]
+  rw [hmodel]
+  have hD : ∀ J : List UInt8, (Cursor.extend_from_slice
+                (Cursor.extend_from_slice
+                    (Cursor.put_u16
+                      (Cursor.put_u64
+                        (Cursor.put_u8 (Cursor.put_u64 (Cursor.put_u64 [] s.client_session_id) s.packet_id) 0)
+                        (UInt64.ofNat E.now))
+                      (padLenOf E item))
+                    (padOf E item) ++
+                  Socks5Addr.encode (toAddr addr))
+                item) ++ J =
+      (be64 s.client_session_id.toNat ++ be64 s.packet_id.toNat) ++
+        (([0] ++ be64 E.now ++ be16 (padOf E item).length ++ padOf E item ++ Socks5Addr.encode (toAddr addr) ++ item) ++ J) := by
+    intro J
+    simp only [Cursor.extend_from_slice, Cursor.put_u16, Cursor.put_u64, Cursor.put_u8, beBytes_eight, beBytes_two', hnow', hP16,
+      List.nil_append, List.append_assoc, List.cons_append]
+  generalize hH : be64 s.client_session_id.toNat ++ be64 s.packet_id.toNat = H at *
+  have hHl : H.length = 16 := by rw [← hH]; rfl
+  generalize hB : [0] ++ be64 E.now ++ be16 (padOf E item).length ++ padOf E item ++ Socks5Addr.encode (toAddr addr) ++ item = B at *
+  have hJ := junk_len 16 ((XM E).spare_bytes 16)
+  generalize hJd : List.take (16 : Usize).toNat ((XM E).spare_bytes 16 ++ List.replicate (16 : Usize).toNat 0) = J at *
+  have hJ16 : J.length = 16 := hJ
+  rcases hkk with hkd | hkd
+  all_goals
+    simp only [hkd, Cursor.advance_mut, hJd, hD]
+    rw [split_at_eval _ 16 (by simp only [List.length_append, hHl]; show 16 ≤ _; omega)]
+    simp only [bind_next, UInt64.reduceToNat, List.take_left' hHl, List.drop_left' hHl]
+    rw [slice_eval _ 4 16 (by decide) (by rw [hHl]; decide)]
+    simp only [bind_next, UInt64.reduceToNat, List.take_of_length_le (Nat.le_of_eq hHl)]
+    rw [copy_from_slice_eval _ _ (by simp [hHl])]
+    simp only [bind_next, ← hkd, aes_enc_eval E _ k hk he, get_cipher_aes_eval E _ k hk h22 hx, call_ok, q_ok]
+    rw [eipd_eval _ _ _ _ _ (by simp only [List.length_append, hJ16]; omega)]
+    simp only [call_ok, bind_next, q_ok, Flow.run, List.append_nil, List.length_append, hJ16, Nat.add_sub_cancel,
+      List.take_left' rfl]
+
+theorem enc_server_aes_key (ov : Bool) (E : MEnv) (N : Usize) (codec : AEADCipherCodec) (c : Context MT) (s : Session) (addr : Address)
+    (item : List UInt8) (k : Ss.Kind) (key : Bytes)
+    (hu : (s.user = none ∧ c.key = key) ∨ (∃ u, s.user = some u ∧ u.key = key))
+    (hk : toKind codec.kind = some k) (hx : SsUdp.xAlg k = none) (h22 : k.is2022 = true)
+    (hitem : Socks5Addr.length (toAddr addr) + item.length + 70000 < 2 ^ 64) (hnow : E.now < 2 ^ 64)
+    (hpad : E.padding.length = E.padLen) (hpl : E.padLen < 65536) :
+    AEADCipherCodec.encode_server_packet_aead_2022 ov (XM E) N codec c s addr item [] =
+      .ok (SsUdp.encode E.C (toCtx k c) .server (toSession s) (toAddr addr) item (randOf E item), .ok ()) := by
+  have he : k.supportEih = true := by cases k <;> simp_all [SsUdp.xAlg, Ss.Kind.is2022, Ss.Kind.supportEih]
+  have hnl : SsUdp.nonceLen k = 0 := by simp [SsUdp.nonceLen, hx]
+  unfold AEADCipherCodec.encode_server_packet_aead_2022
+  have hnp : (XM E).aead_2022_next_padding_length item = .ok (padLenOf E item) := rfl
+  have hP := padLen_toNat E item hpad hpl
+  have hPl : (padOf E item).length ≤ 65535 := by
+    unfold padOf; split
+    · rw [hpad]; omega
+    · simp
+  have hR : (Cursor.remaining item).toNat = item.length := remaining_toNat item (by omega)
+  have hL : (UInt64.ofNat (Socks5Addr.length (toAddr addr))).toNat = Socks5Addr.length (toAddr addr) :=
+    UInt64.toNat_ofNat_of_lt' (by simp [UInt64.size]; omega)
+  simp only [hnp, nonce_length_eval E _ k hk h22, tag_size_eval E _ k hk, hnl, call_ok, bind_next,
+    UInt64.reduceOfNat, UInt64.reduceAdd, length_eq ov addr (by omega)]
+  generalize hPd : U16.as_usize (padLenOf E item) = P at *
+  generalize hLd : UInt64.ofNat (Socks5Addr.length (toAddr addr)) = L at *
+  generalize hRd : Cursor.remaining item = R at *
+  have s1 : ((35 : UInt64) + P).toNat = 35 + P.toNat := add_toNat _ _ (by show 35 + _ < _; omega)
+  have s2 : ((35 : UInt64) + P + L).toNat = 35 + P.toNat + L.toNat := by rw [add_toNat _ _ (by rw [s1]; omega), s1]
+  have s3 : ((35 : UInt64) + P + L + R).toNat = 35 + P.toNat + L.toNat + R.toNat := by rw [add_toNat _ _ (by rw [s2]; omega), s2]
+  rw [arith_add ov 0 8 (by decide), bind_next, arith_add ov 8 8 (by decide), bind_next, arith_add ov 16 1 (by decide), bind_next,
+    arith_add ov 17 8 (by decide), bind_next, arith_add ov 25 8 (by decide), bind_next, arith_add ov 33 2 (by decide), bind_next,
+    arith_add ov 35 P (by show 35 + _ < _; omega), bind_next, arith_add ov _ L (by rw [s1]; omega), bind_next,
+    arith_add ov _ R (by rw [s2]; omega), bind_next, arith_add ov _ 16 (by rw [s3]; show _ + 16 < _; omega), bind_next]
+  have hroll : (XM E).dice_roll_bytes P = PWGen.Res.ok (padOf E item) := by
+    show PWGen.Res.ok (E.padding.take P.toNat) = _
+    rw [hP]; unfold padOf; split
+    · rw [List.take_length]
+    · simp
+  have hnowx : (XM E).aead_2022_now = PWGen.Res.ok (RResult.ok (UInt64.ofNat E.now)) := rfl
+  have hkk : codec.kind = .Aead2022Blake3Aes128Gcm ∨ codec.kind = .Aead2022Blake3Aes256Gcm := by
+    cases hkd : codec.kind <;> simp [hkd, toKind] at hk <;> subst hk <;> simp_all [SsUdp.xAlg, Ss.Kind.is2022]
+  simp only [gt_iff_lt, UInt64.lt_irrefl, decide_false, Bool.false_eq_true, if_false, bind_next, to_u8_eval, call_ok, hnowx, q_ok, hroll,
+    encode_eq, toMode, Ss.Mode.toU8, if_true]
+  have hP16 := padLen_toNat16 E item hpad hpl
+  have hnow' : (UInt64.ofNat E.now).toNat = E.now := UInt64.toNat_ofNat_of_lt' (by simpa [UInt64.size] using hnow)
+  have hmodel : SsUdp.encode E.C (toCtx k c) .server (toSession s) (toAddr addr) item (randOf E item) =
+      E.C.aesEnc key (be64 s.server_session_id.toNat ++ be64 s.packet_id.toNat) ++
+        E.C.sealB k.alg (SsUdp.aesSessionKey E.C k key s.server_session_id.toNat)
+          ((be64 s.server_session_id.toNat ++ be64 s.packet_id.toNat).drop 4) []
+          ([1] ++ be64 E.now ++ be64 s.client_session_id.toNat ++ be16 (padOf E item).length ++ padOf E item ++
+            Socks5Addr.encode (toAddr addr) ++ item) := by
+    simp only [SsUdp.encode, toCtx, h22, not_true_eq_false, if_false, hx, toSession, randOf, Ss.Mode.toU8]
+    rcases hu with ⟨hu, hkey⟩ | ⟨u, hu, hkey⟩
+    · simp only [hu, Option.map_none, hkey]
+    · simp only [hu, Option.map_some, toUser, hkey]
+  rw [hmodel]
+  have hD : ∀ J : List UInt8, (Cursor.extend_from_slice
+                (Cursor.extend_from_slice
+                    (Cursor.put_u16
+                      (Cursor.put_u64
+                        (Cursor.put_u64
+                          (Cursor.put_u8 (Cursor.put_u64 (Cursor.put_u64 [] s.server_session_id) s.packet_id) 1)
+                          (UInt64.ofNat E.now))
+                        s.client_session_id)
+                      (padLenOf E item))
+                    (padOf E item) ++
+                  Socks5Addr.encode (toAddr addr))
+                item) ++ J =
+      (be64 s.server_session_id.toNat ++ be64 s.packet_id.toNat) ++
+        (([1] ++ be64 E.now ++ be64 s.client_session_id.toNat ++ be16 (padOf E item).length ++ padOf E item ++
+            Socks5Addr.encode (toAddr addr) ++ item) ++ J) := by
+    intro J
+    simp only [Cursor.extend_from_slice, Cursor.put_u16, Cursor.put_u64, Cursor.put_u8, beBytes_eight, beBytes_two', hnow', hP16,
+      List.nil_append, List.append_assoc, List.cons_append]
+  generalize hH : be64 s.server_session_id.toNat ++ be64 s.packet_id.toNat = H at *
+  have hHl : H.length = 16 := by rw [← hH]; rfl
+  generalize hB : [1] ++ be64 E.now ++ be64 s.client_session_id.toNat ++ be16 (padOf E item).length ++ padOf E item ++
+            Socks5Addr.encode (toAddr addr) ++ item = B at *
+  have hJ := junk_len 16 ((XM E).spare_bytes 16)
+  generalize hJd : List.take (16 : Usize).toNat ((XM E).spare_bytes 16 ++ List.replicate (16 : Usize).toNat 0) = J at *
+  have hJ16 : J.length = 16 := hJ
+  rcases hkk with hkd | hkd <;> rcases hu with ⟨hu, hkey⟩ | ⟨u, hu, hkey⟩
+  all_goals
+    simp only [hkd, hu, hkey, Cursor.advance_mut, hJd, hD]
+    rw [split_at_eval _ 16 (by simp only [List.length_append, hHl]; show 16 ≤ _; omega)]
+    simp only [bind_next, UInt64.reduceToNat, List.take_left' hHl, List.drop_left' hHl]
+    rw [slice_eval _ 4 16 (by decide) (by rw [hHl]; decide)]
+    simp only [bind_next, UInt64.reduceToNat, List.take_of_length_le (Nat.le_of_eq hHl)]
+    rw [copy_from_slice_eval _ _ (by simp [hHl])]
+    simp only [bind_next, hkey, ← hkd, aes_enc_eval E _ k hk he, get_cipher_aes_eval E _ k hk h22 hx, call_ok, q_ok]
+    rw [eipd_eval _ _ _ _ _ (by simp only [List.length_append, hJ16]; omega)]
+    simp only [call_ok, bind_next, q_ok, Flow.run, List.append_nil, List.length_append, hJ16, Nat.add_sub_cancel,
+      List.take_left' rfl]
+
+theorem enc_client_x (ov : Bool) (E : MEnv) (N : Usize) (codec : AEADCipherCodec) (c : Context MT) (s : Session) (addr : Address)
+    (item : List UInt8) (k : Ss.Kind) (xa : Alg)
+    (hk : toKind codec.kind = some k) (hx : SsUdp.xAlg k = some xa)
+    (hitem : Socks5Addr.length (toAddr addr) + item.length + 70000 < 2 ^ 64) (hnow : E.now < 2 ^ 64)
+    (hpad : E.padding.length = E.padLen) (hpl : E.padLen < 65536) (hrnd : 24 ≤ E.rnd.length) :
+    AEADCipherCodec.encode_client_packet_aead_2022 ov (XM E) N codec c s addr item [] =
+      .ok (SsUdp.encode E.C (toCtx k c) .client (toSession s) (toAddr addr) item (randOf E item), .ok ()) := by
+  have h22 : k.is2022 = true := by cases k <;> simp_all [SsUdp.xAlg, Ss.Kind.is2022]
+  have he : k.supportEih = false := by cases k <;> simp_all [SsUdp.xAlg, Ss.Kind.supportEih]
+  have hnl : SsUdp.nonceLen k = 24 := by simp [SsUdp.nonceLen, hx]
+  unfold AEADCipherCodec.encode_client_packet_aead_2022
+  have hnp : (XM E).aead_2022_next_padding_length item = .ok (padLenOf E item) := rfl
+  have hP := padLen_toNat E item hpad hpl
+  have hPl : (padOf E item).length ≤ 65535 := by
+    unfold padOf; split
+    · rw [hpad]; omega
+    · simp
+  have hR : (Cursor.remaining item).toNat = item.length := remaining_toNat item (by omega)
+  have hL : (UInt64.ofNat (Socks5Addr.length (toAddr addr))).toNat = Socks5Addr.length (toAddr addr) :=
+    UInt64.toNat_ofNat_of_lt' (by simp [UInt64.size]; omega)
+  simp only [hnp, nonce_length_eval E _ k hk h22, tag_size_eval E _ k hk, hnl, call_ok, bind_next, support_eih_eval ov _ k hk, he, Bool.false_and, Bool.false_eq_true, if_false,
+    UInt64.reduceOfNat, UInt64.reduceAdd, length_eq ov addr (by omega)]
+  generalize hPd : U16.as_usize (padLenOf E item) = P at *
+  generalize hLd : UInt64.ofNat (Socks5Addr.length (toAddr addr)) = L at *
+  generalize hRd : Cursor.remaining item = R at *
+  have s1 : ((51 : UInt64) + P).toNat = 51 + P.toNat := add_toNat _ _ (by show 51 + _ < _; omega)
+  have s2 : ((51 : UInt64) + P + L).toNat = 51 + P.toNat + L.toNat := by rw [add_toNat _ _ (by rw [s1]; omega), s1]
+  have s3 : ((51 : UInt64) + P + L + R).toNat = 51 + P.toNat + L.toNat + R.toNat := by rw [add_toNat _ _ (by rw [s2]; omega), s2]
+  rw [arith_add ov 24 8 (by decide), bind_next, arith_add ov 32 8 (by decide), bind_next, arith_add ov 40 0 (by decide), bind_next,
+    arith_add ov 40 1 (by decide), bind_next, arith_add ov 41 8 (by decide), bind_next, arith_add ov 49 2 (by decide), bind_next,
+    arith_add ov 51 P (by show 51 + _ < _; omega), bind_next, arith_add ov _ L (by rw [s1]; omega), bind_next,
+    arith_add ov _ R (by rw [s2]; omega), bind_next, arith_add ov _ 16 (by rw [s3]; show _ + 16 < _; omega), bind_next]
+  have hroll : (XM E).dice_roll_bytes P = PWGen.Res.ok (padOf E item) := by
+    show PWGen.Res.ok (E.padding.take P.toNat) = _
+    rw [hP]; unfold padOf; split
+    · rw [List.take_length]
+    · simp
+  have hnowx : (XM E).aead_2022_now = PWGen.Res.ok (RResult.ok (UInt64.ofNat E.now)) := rfl
+  have hkk : codec.kind = .Aead2022Blake3ChaCha8Poly1305 ∨ codec.kind = .Aead2022Blake3ChaCha20Poly1305 := by
+    cases hkd : codec.kind <;> simp [hkd, toKind] at hk <;> subst hk <;> simp_all [SsUdp.xAlg, Ss.Kind.is2022]
+  have hfill : ∀ b : List UInt8, b.length = 24 → (XM E).dice_fill_bytes b = PWGen.Res.ok (E.rnd.take 24, ()) := by
+    intro b hb
+    show PWGen.Res.ok ((E.rnd ++ List.replicate b.length 0).take b.length, ()) = _
+    rw [hb, List.take_append_of_le_length hrnd]
+  have hJ24 := junk_len 24 ((XM E).spare_bytes 24)
+  have hg : decide ((24 : UInt64) > 0) = true := by decide
+  simp only [hg, if_true, Cursor.advance_mut, List.nil_append]
+  rw [split_at_eval _ 24 (by rw [hJ24]; exact Nat.le_refl _), List.take_of_length_le (Nat.le_of_eq hJ24), List.drop_of_length_le (Nat.le_of_eq hJ24)]
+  simp only [bind_next, hfill _ hJ24, call_ok, to_u8_eval, hnowx, q_ok, hroll, encode_eq, toMode, Ss.Mode.toU8]
+  have hP16 := padLen_toNat16 E item hpad hpl
+  have hnow' : (UInt64.ofNat E.now).toNat = E.now := UInt64.toNat_ofNat_of_lt' (by simpa [UInt64.size] using hnow)
+  have hmodel : SsUdp.encode E.C (toCtx k c) .client (toSession s) (toAddr addr) item (randOf E item) =
+      E.rnd.take 24 ++ E.C.sealB xa (c.key.take 32) (E.rnd.take 24) []
+          ((be64 s.client_session_id.toNat ++ be64 s.packet_id.toNat) ++ ([0] ++ be64 E.now ++ be16 (padOf E item).length ++ padOf E item ++ Socks5Addr.encode (toAddr addr) ++ item)) := by
+    simp only [SsUdp.encode, toCtx, h22, not_true_eq_false, if_false, hx, toSession, randOf, Ss.Mode.toU8]
+  rw [hmodel]
+  generalize hNn : List.take 24 E.rnd = Nn at *
+  have hNl : Nn.length = 24 := by rw [← hNn, List.length_take]; omega
+  have hD : ∀ J : List UInt8, (Cursor.extend_from_slice
+                (Cursor.extend_from_slice
+                    (Cursor.put_u16
+                      (Cursor.put_u64
+                        (Cursor.put_u8 (Cursor.put_u64 (Cursor.put_u64 (Nn ++ []) s.client_session_id) s.packet_id) 0)
+                        (UInt64.ofNat E.now))
+                      (padLenOf E item))
+                    (padOf E item) ++
+                  Socks5Addr.encode (toAddr addr))
+                item) ++ J =
+      Nn ++ (((be64 s.client_session_id.toNat ++ be64 s.packet_id.toNat) ++ ([0] ++ be64 E.now ++ be16 (padOf E item).length ++ padOf E item ++ Socks5Addr.encode (toAddr addr) ++ item)) ++ J) := by
+    intro J
+    simp only [Cursor.extend_from_slice, Cursor.put_u16, Cursor.put_u64, Cursor.put_u8, beBytes_eight, beBytes_two', hnow', hP16,
+      List.nil_append, List.append_nil, List.append_assoc, List.cons_append]
+  generalize hB : (be64 s.client_session_id.toNat ++ be64 s.packet_id.toNat) ++ ([0] ++ be64 E.now ++ be16 (padOf E item).length ++ padOf E item ++ Socks5Addr.encode (toAddr addr) ++ item) = B at *
+  have hJ := junk_len 16 ((XM E).spare_bytes 16)
+  generalize hJd : List.take (16 : Usize).toNat ((XM E).spare_bytes 16 ++ List.replicate (16 : Usize).toNat 0) = J at *
+  have hJ16 : J.length = 16 := hJ
+  rcases hkk with hkd | hkd
+  all_goals
+    simp only [hkd, hD]
+    rw [split_at_eval _ 24 (by simp only [List.length_append, hNl]; show 24 ≤ _; omega)]
+    simp only [bind_next, UInt64.reduceToNat, List.take_left' hNl, List.drop_left' hNl]
+    simp only [← hkd, get_cipher_x_eval E _ k hk h22 xa hx, call_ok, bind_next]
+    rw [eipd_eval _ _ _ _ _ (by simp only [List.length_append, hJ16]; omega)]
+    simp only [call_ok, bind_next, q_ok, Flow.run, List.length_append, hJ16, Nat.add_sub_cancel, List.take_left' rfl]
+
+theorem enc_server_x (ov : Bool) (E : MEnv) (N : Usize) (codec : AEADCipherCodec) (c : Context MT) (s : Session) (addr : Address)
+    (item : List UInt8) (k : Ss.Kind) (xa : Alg)
+    (hk : toKind codec.kind = some k) (hx : SsUdp.xAlg k = some xa)
+    (hitem : Socks5Addr.length (toAddr addr) + item.length + 70000 < 2 ^ 64) (hnow : E.now < 2 ^ 64)
+    (hpad : E.padding.length = E.padLen) (hpl : E.padLen < 65536) (hrnd : 24 ≤ E.rnd.length) :
+    AEADCipherCodec.encode_server_packet_aead_2022 ov (XM E) N codec c s addr item [] =
+      .ok (SsUdp.encode E.C (toCtx k c) .server (toSession s) (toAddr addr) item (randOf E item), .ok ()) := by
+  have h22 : k.is2022 = true := by cases k <;> simp_all [SsUdp.xAlg, Ss.Kind.is2022]
+  have he : k.supportEih = false := by cases k <;> simp_all [SsUdp.xAlg, Ss.Kind.supportEih]
+  have hnl : SsUdp.nonceLen k = 24 := by simp [SsUdp.nonceLen, hx]
+  unfold AEADCipherCodec.encode_server_packet_aead_2022
+  have hnp : (XM E).aead_2022_next_padding_length item = .ok (padLenOf E item) := rfl
+  have hP := padLen_toNat E item hpad hpl
+  have hPl : (padOf E item).length ≤ 65535 := by
+    unfold padOf; split
+    · rw [hpad]; omega
+    · simp
+  have hR : (Cursor.remaining item).toNat = item.length := remaining_toNat item (by omega)
+  have hL : (UInt64.ofNat (Socks5Addr.length (toAddr addr))).toNat = Socks5Addr.length (toAddr addr) :=
+    UInt64.toNat_ofNat_of_lt' (by simp [UInt64.size]; omega)
+  simp only [hnp, nonce_length_eval E _ k hk h22, tag_size_eval E _ k hk, hnl, call_ok, bind_next, 
+    UInt64.reduceOfNat, UInt64.reduceAdd, length_eq ov addr (by omega)]
+  generalize hPd : U16.as_usize (padLenOf E item) = P at *
+  generalize hLd : UInt64.ofNat (Socks5Addr.length (toAddr addr)) = L at *
+  generalize hRd : Cursor.remaining item = R at *
+  have s1 : ((59 : UInt64) + P).toNat = 59 + P.toNat := add_toNat _ _ (by show 59 + _ < _; omega)
+  have s2 : ((59 : UInt64) + P + L).toNat = 59 + P.toNat + L.toNat := by rw [add_toNat _ _ (by rw [s1]; omega), s1]
+  have s3 : ((59 : UInt64) + P + L + R).toNat = 59 + P.toNat + L.toNat + R.toNat := by rw [add_toNat _ _ (by rw [s2]; omega), s2]
+  rw [arith_add ov 24 8 (by decide), bind_next, arith_add ov 32 8 (by decide), bind_next, arith_add ov 40 1 (by decide), bind_next,
+    arith_add ov 41 8 (by decide), bind_next, arith_add ov 49 8 (by decide), bind_next, arith_add ov 57 2 (by decide), bind_next,
+    arith_add ov 59 P (by show 59 + _ < _; omega), bind_next, arith_add ov _ L (by rw [s1]; omega), bind_next,
+    arith_add ov _ R (by rw [s2]; omega), bind_next, arith_add ov _ 16 (by rw [s3]; show _ + 16 < _; omega), bind_next]
+  have hroll : (XM E).dice_roll_bytes P = PWGen.Res.ok (padOf E item) := by
+    show PWGen.Res.ok (E.padding.take P.toNat) = _
+    rw [hP]; unfold padOf; split
+    · rw [List.take_length]
+    · simp
+  have hnowx : (XM E).aead_2022_now = PWGen.Res.ok (RResult.ok (UInt64.ofNat E.now)) := rfl
+  have hkk : codec.kind = .Aead2022Blake3ChaCha8Poly1305 ∨ codec.kind = .Aead2022Blake3ChaCha20Poly1305 := by
+    cases hkd : codec.kind <;> simp [hkd, toKind] at hk <;> subst hk <;> simp_all [SsUdp.xAlg, Ss.Kind.is2022]
+  have hfill : ∀ b : List UInt8, b.length = 24 → (XM E).dice_fill_bytes b = PWGen.Res.ok (E.rnd.take 24, ()) := by
+    intro b hb
+    show PWGen.Res.ok ((E.rnd ++ List.replicate b.length 0).take b.length, ()) = _
+    rw [hb, List.take_append_of_le_length hrnd]
+  have hJ24 := junk_len 24 ((XM E).spare_bytes 24)
+  have hg : decide ((24 : UInt64) > 0) = true := by decide
+  simp only [hg, if_true, Cursor.advance_mut, List.nil_append]
+  rw [split_at_eval _ 24 (by rw [hJ24]; exact Nat.le_refl _), List.take_of_length_le (Nat.le_of_eq hJ24), List.drop_of_length_le (Nat.le_of_eq hJ24)]
+  simp only [bind_next, hfill _ hJ24, call_ok, to_u8_eval, hnowx, q_ok, hroll, encode_eq, toMode, Ss.Mode.toU8]
+  have hP16 := padLen_toNat16 E item hpad hpl
+  have hnow' : (UInt64.ofNat E.now).toNat = E.now := UInt64.toNat_ofNat_of_lt' (by simpa [UInt64.size] using hnow)
+  have hmodel : SsUdp.encode E.C (toCtx k c) .server (toSession s) (toAddr addr) item (randOf E item) =
+      E.rnd.take 24 ++ E.C.sealB xa (c.key.take 32) (E.rnd.take 24) []
+          ((be64 s.server_session_id.toNat ++ be64 s.packet_id.toNat) ++ ([1] ++ be64 E.now ++ be64 s.client_session_id.toNat ++ be16 (padOf E item).length ++ padOf E item ++ Socks5Addr.encode (toAddr addr) ++ item)) := by
+    simp only [SsUdp.encode, toCtx, h22, not_true_eq_false, if_false, hx, toSession, randOf, Ss.Mode.toU8]
+  rw [hmodel]
+  generalize hNn : List.take 24 E.rnd = Nn at *
+  have hNl : Nn.length = 24 := by rw [← hNn, List.length_take]; omega
+  have hD : ∀ J : List UInt8, (Cursor.extend_from_slice
+                (Cursor.extend_from_slice
+                    (Cursor.put_u16
+                      (Cursor.put_u64
+                        (Cursor.put_u64
+                          (Cursor.put_u8 (Cursor.put_u64 (Cursor.put_u64 (Nn ++ []) s.server_session_id) s.packet_id) 1)
+                          (UInt64.ofNat E.now))
+                        s.client_session_id)
+                      (padLenOf E item))
+                    (padOf E item) ++
+                  Socks5Addr.encode (toAddr addr))
+                item) ++ J =
+      Nn ++ (((be64 s.server_session_id.toNat ++ be64 s.packet_id.toNat) ++ ([1] ++ be64 E.now ++ be64 s.client_session_id.toNat ++ be16 (padOf E item).length ++ padOf E item ++ Socks5Addr.encode (toAddr addr) ++ item)) ++ J) := by
+    intro J
+    simp only [Cursor.extend_from_slice, Cursor.put_u16, Cursor.put_u64, Cursor.put_u8, beBytes_eight, beBytes_two', hnow', hP16,
+      List.nil_append, List.append_nil, List.append_assoc, List.cons_append]
+  generalize hB : (be64 s.server_session_id.toNat ++ be64 s.packet_id.toNat) ++ ([1] ++ be64 E.now ++ be64 s.client_session_id.toNat ++ be16 (padOf E item).length ++ padOf E item ++ Socks5Addr.encode (toAddr addr) ++ item) = B at *
+  have hJ := junk_len 16 ((XM E).spare_bytes 16)
+  generalize hJd : List.take (16 : Usize).toNat ((XM E).spare_bytes 16 ++ List.replicate (16 : Usize).toNat 0) = J at *
+  have hJ16 : J.length = 16 := hJ
+  rcases hkk with hkd | hkd
+  all_goals
+    simp only [hkd, hD]
+    rw [split_at_eval _ 24 (by simp only [List.length_append, hNl]; show 24 ≤ _; omega)]
+    simp only [bind_next, UInt64.reduceToNat, List.take_left' hNl, List.drop_left' hNl]
+    simp only [← hkd, get_cipher_x_eval E _ k hk h22 xa hx, call_ok, bind_next]
+    rw [eipd_eval _ _ _ _ _ (by simp only [List.length_append, hJ16]; omega)]
+    simp only [call_ok, bind_next, q_ok, Flow.run, List.length_append, hJ16, Nat.add_sub_cancel, List.take_left' rfl]
+
+theorem withEih_length (C : Crypto) (hl : ∀ k b, (C.aesEnc k b).length = 16) (key sp : Bytes) :
+    ∀ iks : List Bytes, (SsUdp.withEih C key sp iks).length = 16 * iks.length
+  | [] => rfl
+  | [_] => by simp [SsUdp.withEih, hl]
+  | a :: b :: r => by
+    have := withEih_length C hl key sp (b :: r)
+    simp only [SsUdp.withEih, List.length_append, hl, this, List.length_cons]; omega
+
+theorem with_eih_eval (E : MEnv) (kind : CipherKind) (k : Ss.Kind) (hk : toKind kind = some k) (he : k.supportEih = true)
+    (key sp dst : Bytes) (iks : List Bytes) :
+    (XM E).udp_with_eih kind key iks sp dst = PWGen.Res.ok (dst ++ SsUdp.withEih E.C key sp iks, RResult.ok ()) := by simp [XM, hk, he]
+
+theorem mul16_toNat (n : Nat) (h : n < 2 ^ 59) : ((16 : UInt64) * UInt64.ofNat n).toNat = 16 * n := by
+  have e : (UInt64.ofNat n).toNat = n := UInt64.toNat_ofNat_of_lt' (by simp [UInt64.size]; omega)
+  rw [UInt64.toNat_mul, e]; show 16 * n % 2 ^ 64 = _; omega
+
+theorem arith_mul16 {ρ : Type} (ov : Bool) (n : Nat) (h : n < 2 ^ 59) :
+    (Flow.arith ov (U64.mulOk 16 (UInt64.ofNat n)) : Flow Unit ρ) = Flow.next () := by
+  have e : (UInt64.ofNat n).toNat = n := UInt64.toNat_ofNat_of_lt' (by simp [UInt64.size]; omega)
+  have : U64.mulOk 16 (UInt64.ofNat n) = true := by
+    simp only [U64.mulOk, e, decide_eq_true_eq]; show 16 * n < 2 ^ 64; omega
+  rw [this, arith_true]
+
+/-- **`encode_client_packet_aead_2022`, AES kinds, with identity keys (any number)** = the model: ALL identity headers that
+`with_eih` appended (16 bytes per identity key) stay in clear in front of the sealed body (the code as repaired in 743f501:
+`eih_len = 16 * identity_keys.len()`) -/
+theorem enc_client_aes_eih (ov : Bool) (E : MEnv) (N : Usize) (codec : AEADCipherCodec) (c : Context MT) (s : Session) (addr : Address)
+    (item : List UInt8) (k : Ss.Kind) (ik : Bytes) (iks : List Bytes)
+    (hk : toKind codec.kind = some k) (hx : SsUdp.xAlg k = none) (h22 : k.is2022 = true)
+    (hik : c.identity_keys = ik :: iks) (hn : (ik :: iks).length < 2 ^ 59)
+    (hitem : Socks5Addr.length (toAddr addr) + item.length + 70000 < 2 ^ 63) (hnow : E.now < 2 ^ 64)
+    (hpad : E.padding.length = E.padLen) (hpl : E.padLen < 65536)
+    (haesl : ∀ k b, (E.C.aesEnc k b).length = 16) :
+    AEADCipherCodec.encode_client_packet_aead_2022 ov (XM E) N codec c s addr item [] =
+      .ok (SsUdp.encode E.C (toCtx k c) .client (toSession s) (toAddr addr) item (randOf E item), .ok ()) := by
+  have he : k.supportEih = true := by cases k <;> simp_all [SsUdp.xAlg, Ss.Kind.is2022, Ss.Kind.supportEih]
+  have hnl : SsUdp.nonceLen k = 0 := by simp [SsUdp.nonceLen, hx]
+  unfold AEADCipherCodec.encode_client_packet_aead_2022
+  have hnp : (XM E).aead_2022_next_padding_length item = .ok (padLenOf E item) := rfl
+  have hP := padLen_toNat E item hpad hpl
+  have hPl : (padOf E item).length ≤ 65535 := by
+    unfold padOf; split
+    · rw [hpad]; omega
+    · simp
+  have hR : (Cursor.remaining item).toNat = item.length := remaining_toNat item (by omega)
+  have hL : (UInt64.ofNat (Socks5Addr.length (toAddr addr))).toNat = Socks5Addr.length (toAddr addr) :=
+    UInt64.toNat_ofNat_of_lt' (by simp [UInt64.size]; omega)
+  have hEL := mul16_toNat (ik :: iks).length hn
+  simp only [hnp, nonce_length_eval E _ k hk h22, tag_size_eval E _ k hk, support_eih_eval ov _ k hk, he, hnl, call_ok, bind_next, hik,
+    List.isEmpty_cons, Bool.not_false, Bool.and_true, if_true, UInt64.reduceOfNat, UInt64.reduceAdd, ListArr.len,
+    arith_mul16 ov _ hn, length_eq ov addr (by omega)]
+  generalize hPd : U16.as_usize (padLenOf E item) = P at *
+  generalize hLd : UInt64.ofNat (Socks5Addr.length (toAddr addr)) = L at *
+  generalize hRd : Cursor.remaining item = R at *
+  generalize hELd : (16 : UInt64) * UInt64.ofNat (ik :: iks).length = EL at *
+  have hELb : EL.toNat < 2 ^ 63 := by rw [hEL]; omega
+  have hELp : 16 ≤ EL.toNat := by rw [hEL]; simp only [List.length_cons]; omega
+  have t1 : ((16 : UInt64) + EL).toNat = 16 + EL.toNat := add_toNat _ _ (by show 16 + _ < _; omega)
+  have t2 : ((16 : UInt64) + EL + 1).toNat = 16 + EL.toNat + 1 := by rw [add_toNat _ _ (by rw [t1]; show _ + 1 < _; omega), t1]; rfl
+  have t3 : ((16 : UInt64) + EL + 1 + 8).toNat = 16 + EL.toNat + 1 + 8 := by rw [add_toNat _ _ (by rw [t2]; show _ + 8 < _; omega), t2]; rfl
+  have t4 : ((16 : UInt64) + EL + 1 + 8 + 2).toNat = 16 + EL.toNat + 1 + 8 + 2 := by rw [add_toNat _ _ (by rw [t3]; show _ + 2 < _; omega), t3]; rfl
+  have s1 : ((16 : UInt64) + EL + 1 + 8 + 2 + P).toNat = 16 + EL.toNat + 1 + 8 + 2 + P.toNat := by rw [add_toNat _ _ (by rw [t4]; omega), t4]
+  have s2 : ((16 : UInt64) + EL + 1 + 8 + 2 + P + L).toNat = 16 + EL.toNat + 1 + 8 + 2 + P.toNat + L.toNat := by rw [add_toNat _ _ (by rw [s1]; omega), s1]
+  have s3 : ((16 : UInt64) + EL + 1 + 8 + 2 + P + L + R).toNat = 16 + EL.toNat + 1 + 8 + 2 + P.toNat + L.toNat + R.toNat := by
+    rw [add_toNat _ _ (by rw [s2]; omega), s2]
+  rw [arith_add ov 0 8 (by decide), bind_next, arith_add ov 8 8 (by decide), bind_next, arith_add ov 16 EL (by show 16 + _ < _; omega), bind_next,
+    arith_add ov _ 1 (by rw [t1]; show _ + 1 < _; omega), bind_next, arith_add ov _ 8 (by rw [t2]; show _ + 8 < _; omega), bind_next,
+    arith_add ov _ 2 (by rw [t3]; show _ + 2 < _; omega), bind_next,
+    arith_add ov _ P (by rw [t4]; omega), bind_next, arith_add ov _ L (by rw [s1]; omega), bind_next,
+    arith_add ov _ R (by rw [s2]; omega), bind_next, arith_add ov _ 16 (by rw [s3]; show _ + 16 < _; omega), bind_next]
+  have hroll : (XM E).dice_roll_bytes P = PWGen.Res.ok (padOf E item) := by
+    show PWGen.Res.ok (E.padding.take P.toNat) = _
+    rw [hP]; unfold padOf; split
+    · rw [List.take_length]
+    · simp
+  have hnowx : (XM E).aead_2022_now = PWGen.Res.ok (RResult.ok (UInt64.ofNat E.now)) := rfl
+  have hkk : codec.kind = .Aead2022Blake3Aes128Gcm ∨ codec.kind = .Aead2022Blake3Aes256Gcm := by
+    cases hkd : codec.kind <;> simp [hkd, toKind] at hk <;> subst hk <;> simp_all [SsUdp.xAlg, Ss.Kind.is2022]
+  have hP16 := padLen_toNat16 E item hpad hpl
+  have hnow' : (UInt64.ofNat E.now).toNat = E.now := UInt64.toNat_ofNat_of_lt' (by simpa [UInt64.size] using hnow)
+  have hmodel : SsUdp.encode E.C (toCtx k c) .client (toSession s) (toAddr addr) item (randOf E item) =
+      E.C.aesEnc ik (be64 s.client_session_id.toNat ++ be64 s.packet_id.toNat) ++
+        SsUdp.withEih E.C c.key (be64 s.client_session_id.toNat ++ be64 s.packet_id.toNat) (ik :: iks) ++
+        E.C.sealB k.alg (SsUdp.aesSessionKey E.C k c.key s.client_session_id.toNat)
+          ((be64 s.client_session_id.toNat ++ be64 s.packet_id.toNat).drop 4) []
+          ([0] ++ be64 E.now ++ be16 (padOf E item).length ++ padOf E item ++ Socks5Addr.encode (toAddr addr) ++ item) := by
+    simp only [SsUdp.encode, toCtx, h22, not_true_eq_false, if_false, hx, hik, toSession, randOf, Ss.Mode.toU8, he, ne_eq,
+      List.cons_ne_nil, not_false_eq_true, and_self, if_true, reduceCtorEq]
+  rw [hmodel]
+  have hH0 : Cursor.put_u64 (Cursor.put_u64 [] s.client_session_id) s.packet_id =
+      be64 s.client_session_id.toNat ++ be64 s.packet_id.toNat := by
+    simp only [Cursor.put_u64, beBytes_eight, List.nil_append]
+  simp only [gt_iff_lt, UInt64.lt_irrefl, decide_false, Bool.false_eq_true, if_false, bind_next, hH0]
+  generalize hH : be64 s.client_session_id.toNat ++ be64 s.packet_id.toNat = H at *
+  have hHl : H.length = 16 := by rw [← hH]; rfl
+  have hlenH : (Cursor.len H).toNat = 16 := by rw [len_toNat _ (by rw [hHl]; decide), hHl]
+  rw [slice_eval _ 0 _ (by simp) (by rw [hlenH, hHl]; exact Nat.le_refl _)]
+  simp only [bind_next, hlenH, UInt64.reduceToNat, List.drop_zero, List.take_of_length_le (Nat.le_of_eq hHl)]
+  rw [copy_from_slice_eval _ _ (by simp [hHl])]
+  simp only [bind_next, with_eih_eval E _ k hk he, call_ok, q_ok, to_u8_eval, hnowx, hroll, encode_eq, toMode, Ss.Mode.toU8]
+  have hWl := withEih_length E.C haesl c.key H (ik :: iks)
+  generalize hW : SsUdp.withEih E.C c.key H (ik :: iks) = W at *
+  have hWEL : W.length = EL.toNat := by rw [hWl, hEL]
+  have hD : ∀ J : List UInt8, (Cursor.extend_from_slice
+                (Cursor.extend_from_slice
+                    (Cursor.put_u16 (Cursor.put_u64 (Cursor.put_u8 (H ++ W) 0) (UInt64.ofNat E.now)) (padLenOf E item))
+                    (padOf E item) ++
+                  Socks5Addr.encode (toAddr addr))
+                item) ++ J =
+      H ++ (W ++ (([0] ++ be64 E.now ++ be16 (padOf E item).length ++ padOf E item ++ Socks5Addr.encode (toAddr addr) ++ item) ++ J)) := by
+    intro J
+    simp only [Cursor.extend_from_slice, Cursor.put_u16, Cursor.put_u64, Cursor.put_u8, beBytes_eight, beBytes_two', hnow', hP16,
+      List.nil_append, List.append_assoc, List.cons_append]
+  generalize hB : [0] ++ be64 E.now ++ be16 (padOf E item).length ++ padOf E item ++ Socks5Addr.encode (toAddr addr) ++ item = B at *
+  have hJ := junk_len 16 ((XM E).spare_bytes 16)
+  generalize hJd : List.take (16 : Usize).toNat ((XM E).spare_bytes 16 ++ List.replicate (16 : Usize).toNat 0) = J at *
+  have hJ16 : J.length = 16 := hJ
+  have hg : decide ((0 : UInt64) < EL) = true := by
+    rw [decide_eq_true_eq, UInt64.lt_iff_toNat_lt]; show 0 < EL.toNat; omega
+  have hla : ∀ ρ : Type, (Flow.listAt (ik :: iks) 0 : Flow _ ρ) = Flow.next ik := fun _ => rfl
+  rcases hkk with hkd | hkd
+  all_goals
+    simp only [hkd, Cursor.advance_mut, hJd, hD]
+    rw [split_at_eval _ 16 (by simp only [List.length_append, hHl]; show 16 ≤ _; omega)]
+    simp only [bind_next, UInt64.reduceToNat, List.take_left' hHl, List.drop_left' hHl]
+    rw [slice_eval _ 4 16 (by decide) (by rw [hHl]; decide)]
+    simp only [bind_next, UInt64.reduceToNat, List.take_of_length_le (Nat.le_of_eq hHl)]
+    rw [copy_from_slice_eval _ _ (by simp [hHl])]
+    simp only [bind_next, hla, ← hkd, aes_enc_eval E _ k hk he, call_ok, q_ok, hg, if_true]
+    rw [split_at_eval _ EL (by simp only [List.length_append, hWEL]; omega)]
+    simp only [bind_next, List.take_left' hWEL, List.drop_left' hWEL, get_cipher_aes_eval E _ k hk h22 hx, call_ok]
+    rw [eipd_eval _ _ _ _ _ (by simp only [List.length_append, hJ16]; omega)]
+    simp only [call_ok, bind_next, q_ok, Flow.run, List.nil_append, List.length_append, hJ16, Nat.add_sub_cancel,
+      List.take_left' rfl, List.append_assoc]
+
+/-- one identity key (kept under its old name): an instance of `enc_client_aes_eih` -/
+theorem enc_client_aes_eih1 (ov : Bool) (E : MEnv) (N : Usize) (codec : AEADCipherCodec) (c : Context MT) (s : Session) (addr : Address)
+    (item : List UInt8) (k : Ss.Kind) (ik : Bytes)
+    (hk : toKind codec.kind = some k) (hx : SsUdp.xAlg k = none) (h22 : k.is2022 = true)
+    (hik : c.identity_keys = [ik])
+    (hitem : Socks5Addr.length (toAddr addr) + item.length + 70000 < 2 ^ 63) (hnow : E.now < 2 ^ 64)
+    (hpad : E.padding.length = E.padLen) (hpl : E.padLen < 65536)
+    (haesl : ∀ k b, (E.C.aesEnc k b).length = 16) :
+    AEADCipherCodec.encode_client_packet_aead_2022 ov (XM E) N codec c s addr item [] =
+      .ok (SsUdp.encode E.C (toCtx k c) .client (toSession s) (toAddr addr) item (randOf E item), .ok ()) :=
+  enc_client_aes_eih ov E N codec c s addr item k ik [] hk hx h22 hik (by simp) hitem hnow hpad hpl haesl
+
+/-- **`encode_client_packet_aead_2022`** (any 2022 kind, ANY number of identity keys below 2^59, `dst` empty at entry) writes
+exactly the model's wire bytes -/
+theorem encode_client_eq (ov : Bool) (E : MEnv) (N : Usize) (codec : AEADCipherCodec) (c : Context MT) (s : Session) (addr : Address)
+    (item : List UInt8) (k : Ss.Kind)
+    (hk : toKind codec.kind = some k) (h22 : k.is2022 = true) (hik : c.identity_keys.length < 2 ^ 59)
+    (hitem : Socks5Addr.length (toAddr addr) + item.length + 70000 < 2 ^ 63) (hnow : E.now < 2 ^ 64)
+    (hpad : E.padding.length = E.padLen) (hpl : E.padLen < 65536) (hrnd : 24 ≤ E.rnd.length)
+    (haesl : ∀ k b, (E.C.aesEnc k b).length = 16) :
+    AEADCipherCodec.encode_client_packet_aead_2022 ov (XM E) N codec c s addr item [] =
+      .ok (SsUdp.encode E.C (toCtx k c) .client (toSession s) (toAddr addr) item (randOf E item), .ok ()) := by
+  cases hx : SsUdp.xAlg k with
+  | some xa => exact enc_client_x ov E N codec c s addr item k xa hk hx (by omega) hnow hpad hpl hrnd
+  | none =>
+    cases hi : c.identity_keys with
+    | nil => exact enc_client_aes ov E N codec c s addr item k hk hx h22 hi (by omega) hnow hpad hpl
+    | cons ik iks => exact enc_client_aes_eih ov E N codec c s addr item k ik iks hk hx h22 hi (by rw [← hi]; exact hik) hitem hnow hpad hpl haesl
+
+/-- **`encode_server_packet_aead_2022`** (any 2022 kind, `dst` empty at entry) writes exactly the model's wire bytes; the AES
+kinds use the key of the session's user (when there is one) for the separate header AND the body -/
+theorem encode_server_eq (ov : Bool) (E : MEnv) (N : Usize) (codec : AEADCipherCodec) (c : Context MT) (s : Session) (addr : Address)
+    (item : List UInt8) (k : Ss.Kind)
+    (hk : toKind codec.kind = some k) (h22 : k.is2022 = true)
+    (hitem : Socks5Addr.length (toAddr addr) + item.length + 70000 < 2 ^ 64) (hnow : E.now < 2 ^ 64)
+    (hpad : E.padding.length = E.padLen) (hpl : E.padLen < 65536) (hrnd : 24 ≤ E.rnd.length) :
+    AEADCipherCodec.encode_server_packet_aead_2022 ov (XM E) N codec c s addr item [] =
+      .ok (SsUdp.encode E.C (toCtx k c) .server (toSession s) (toAddr addr) item (randOf E item), .ok ()) := by
+  cases hx : SsUdp.xAlg k with
+  | some xa => exact enc_server_x ov E N codec c s addr item k xa hk hx hitem hnow hpad hpl hrnd
+  | none =>
+    cases hu : s.user with
+    | none => exact enc_server_aes_key ov E N codec c s addr item k c.key (.inl ⟨hu, rfl⟩) hk hx h22 hitem hnow hpad hpl
+    | some u => exact enc_server_aes_key ov E N codec c s addr item k u.key (.inr ⟨u, hu, rfl⟩) hk hx h22 hitem hnow hpad hpl
+
+/-- the legacy branch of `AEADCipherCodec::encode`: salt ‖ seal(address ‖ payload) -/
+theorem encode_legacy_eq (ov : Bool) (E : MEnv) (N : Usize) (codec : AEADCipherCodec) (c : Context MT) (s : Session) (addr : Address)
+    (item : List UInt8) (k : Ss.Kind)
+    (hk : toKind codec.kind = some k) (h22 : k.is2022 = false)
+    (hitem : Socks5Addr.length (toAddr addr) + item.length + 70000 < 2 ^ 64)
+    (hrnd : E.rnd.length = N.toNat) :
+    AEADCipherCodec.encode ov (XM E) N codec c s addr item [] =
+      .ok (SsUdp.encode E.C (toCtx k c) (toMode c.stream_type) (toSession s) (toAddr addr) item (randOf E item), .ok ()) := by
+  unfold AEADCipherCodec.encode SsUdp.encode
+  have hfill : (XM E).dice_fill_bytes (List.replicate N.toNat 0) = PWGen.Res.ok (E.rnd, ()) := by
+    show PWGen.Res.ok ((E.rnd ++ List.replicate (List.replicate N.toNat (0 : UInt8)).length 0).take (List.replicate N.toNat (0 : UInt8)).length, ()) = _
+    rw [List.length_replicate, ← hrnd, List.take_left' rfl]
+  have hR : (Cursor.remaining item).toNat = item.length := remaining_toNat item (by omega)
+  have hL : (UInt64.ofNat (Socks5Addr.length (toAddr addr))).toNat = Socks5Addr.length (toAddr addr) :=
+    UInt64.toNat_ofNat_of_lt' (by simp [UInt64.size]; omega)
+  have hne : (XM E).aead_new_encoder codec.kind c.key E.rnd = PWGen.Res.ok (RResult.ok (Ss.newAuth E.C k c.key E.rnd)) := by simp [XM, hk]
+  simp only [is_aead_2022_eval ov _ k hk, h22, call_ok, bind_next, toCtx, Bool.false_eq_true, not_false_eq_true, if_true, hfill,
+    length_eq ov addr (by omega), encode_eq, AEADCipherCodec.new_encoder, Flow.run, hne, q_ok, randOf, Cursor.extend_from_slice,
+    List.nil_append]
+  rw [arith_add ov _ _ (by rw [hL, hR]; omega)]
+  rfl
+
+/-- **`AEADCipherCodec::encode`** (dispatch on cipher family and on who is encoding) = the model's `encode`, byte for byte,
+with the randomness the externals hand out (`dst` empty at entry) -/
+theorem encode_eq_model (ov : Bool) (E : MEnv) (N : Usize) (codec : AEADCipherCodec) (c : Context MT) (s : Session) (addr : Address)
+    (item : List UInt8) (k : Ss.Kind)
+    (hk : toKind codec.kind = some k) (hik : c.identity_keys.length < 2 ^ 59)
+    (hitem : Socks5Addr.length (toAddr addr) + item.length + 70000 < 2 ^ 63) (hnow : E.now < 2 ^ 64)
+    (hpad : E.padding.length = E.padLen) (hpl : E.padLen < 65536)
+    (hrnd : if k.is2022 then 24 ≤ E.rnd.length else E.rnd.length = N.toNat)
+    (haesl : ∀ k b, (E.C.aesEnc k b).length = 16) :
+    AEADCipherCodec.encode ov (XM E) N codec c s addr item [] =
+      .ok (SsUdp.encode E.C (toCtx k c) (toMode c.stream_type) (toSession s) (toAddr addr) item (randOf E item), .ok ()) := by
+  cases h22 : k.is2022 with
+  | false => exact encode_legacy_eq ov E N codec c s addr item k hk h22 (by omega) (by simpa [h22] using hrnd)
+  | true =>
+    have hr : 24 ≤ E.rnd.length := by simpa [h22] using hrnd
+    unfold AEADCipherCodec.encode
+    simp only [is_aead_2022_eval ov _ k hk, h22, call_ok, bind_next]
+    cases hm : c.stream_type with
+    | Client =>
+      simp only [toMode]
+      rw [run_call_id, encode_client_eq ov E N codec c s addr item k hk h22 hik hitem hnow hpad hpl hr haesl]
+    | Server =>
+      simp only [toMode]
+      rw [run_call_id, encode_server_eq ov E N codec c s addr item k hk h22 (by omega) hnow hpad hpl hr]
+
+/-- **`SessionCodec::encode`** = the model's `encode` of the packet's content, address and session -/
+theorem session_encode_eq (ov : Bool) (E : MEnv) (N : Usize) (sc : SessionCodec MT) (content : List UInt8) (addr : Address) (s : Session)
+    (k : Ss.Kind) (hk : toKind sc.cipher.kind = some k) (hik : sc.context.identity_keys.length < 2 ^ 59)
+    (hitem : Socks5Addr.length (toAddr addr) + content.length + 70000 < 2 ^ 63) (hnow : E.now < 2 ^ 64)
+    (hpad : E.padding.length = E.padLen) (hpl : E.padLen < 65536)
+    (hrnd : if k.is2022 then 24 ≤ E.rnd.length else E.rnd.length = N.toNat)
+    (haesl : ∀ k b, (E.C.aesEnc k b).length = 16) :
+    SessionCodec.encode ov (XM E) N sc (content, addr, s) [] =
+      .ok (SsUdp.encode E.C (toCtx k sc.context) (toMode sc.context.stream_type) (toSession s) (toAddr addr) content (randOf E content),
+        .ok ()) := by
+  unfold SessionCodec.encode
+  rw [run_call_id]
+  exact encode_eq_model ov E N sc.cipher sc.context s addr content k hk hik hitem hnow hpad hpl hrnd haesl
+
+/-- **`Session::increase_packet_id`**: the packet id steps by exactly one (wrapping at 2^64, never a panic); everything else of
+the session is unchanged.  With the model's `ClientCodec.encode` refusing to step past 2^64 − 1 (`c12_udp_client_ends_rather_than_wrap`)
+consecutive datagrams of a session carry strictly increasing ids -/
+theorem increase_packet_id_eval (ov : Bool) {T : ExtTypes} (X : Ext T) (N : Usize) (s : Session) :
+    Session.increase_packet_id ov X N s = PWGen.Res.ok ({ s with packet_id := s.packet_id + 1 }, ()) := rfl
+
+theorem increase_packet_id_toNat (s : Session) (h : s.packet_id.toNat + 1 < 2 ^ 64) :
+    (toSession { s with packet_id := s.packet_id + 1 }).packetId = (toSession s).packetId + 1 := by
+  simp only [toSession]
+  rw [UInt64.toNat_add]; exact Nat.mod_eq_of_lt h
 
 /-! ## Part 3 — `impl Ord for CipherKey` -/
 
